@@ -1,17 +1,2442 @@
-//! C11 — engine not implemented yet.
+//! C11 — STBC container: total decoder/validator, exact round trip, validated means safe.
+//!
+//! Core X1 (bounded-exhaustive input enumeration on the real code):
+//!  1. round trip over a program corpus (every `.st` file of the repository that compiles on its
+//!     own, every directory of `.st` files that compiles as a project, and a fixed list of small
+//!     generated programs that together emit every section kind and every type kind);
+//!  2. totality under structure-aware exhaustive mutation of valid containers (CRC recomputed),
+//!     each mutant executed `decode -> validate -> metadata -> apply_bytecode_bytes (-> hot reload
+//!     continuation)` inside an `iso` worker process under RLIMIT_AS with a progress marker written
+//!     before every stage, so that an abort is attributed to exactly one mutant and one stage.
+//!
+//! Oracle (exactly the statement): every stage returns Ok/Err — a caught panic, a process abort
+//! (failed allocation under RLIMIT_AS = 1 GiB, stack overflow on 8 MiB) or a stage that does not
+//! finish within 60 s is a violation; `validate(compile(p))` is Ok; `decode(encode(m)) == m`;
+//! `encode(decode(e)) == e`; a mutant that validates is applied to a runtime (fresh per distinct
+//! metadata) followed by the hot-reload continuation of scheduler.rs without panic. What the
+//! *value* of Ok/Err is, is never judged. Re-encoding decoded mutants is exercised but not judged
+//! (non-canonical padding/offsets cannot round-trip).
+//!
+//! The check can fail — tried on a scratch copy of the repository (see the engine report):
+//! removing the `POU code out of bounds` check of validate, making encode drop `VarMeta.retain`,
+//! an off-by-one section length in encode, `>` -> `> len+1` in `BytecodeReader::read_bytes`
+//! are each reported; with the repairs for the defects found on the unchanged tree applied, both
+//! tiers are clean.
+//!
+//! Process model: the `iso` worker (RLIMIT_AS, RUST_BACKTRACE=0) is a fork server. It forks a
+//! child that runs the mutants of a batch and streams one progress record before every stage and
+//! one result record after every mutant; when the child dies the parent knows the mutant and the
+//! stage, keeps everything before it, re-tries the mutant in a fresh child unless it was the
+//! child's first one, and continues behind it.
+//!
+//! The container layout used to *label* mutated bytes (never as an oracle) is written from
+//! `/repo/docs/specs/10-runtime.md`, "ST Bytecode Format Specification" §4–§7.
 
 use crate::fw::*;
-use crate::iso::WorkerFn;
-use serde_json::Value;
+use crate::iso;
+use crate::par::par_map;
+use serde_json::{json, Value};
+use std::collections::{BTreeMap, BTreeSet, HashSet};
+use std::time::{Duration, Instant};
+use trust_runtime::bytecode::{BytecodeModule, SectionData, SectionId};
+use trust_runtime::harness::{CompileSession, SourceFile};
 
-pub fn run(_ctx: &Ctx) -> EngineResult {
-    machinery("engine C11 not implemented")
+const RLIMIT_AS: u64 = 1 << 30;
+const WORKER_STACK: usize = 8 << 20;
+
+// ------------------------------------------------------------------------------------------------
+// small helpers
+// ------------------------------------------------------------------------------------------------
+
+fn hex(b: &[u8]) -> String {
+    const T: &[u8; 16] = b"0123456789abcdef";
+    let mut s = String::with_capacity(b.len() * 2);
+    for x in b {
+        s.push(T[(x >> 4) as usize] as char);
+        s.push(T[(x & 15) as usize] as char);
+    }
+    s
 }
 
-pub fn check_case(_case: &Value) -> Vec<Violation> {
-    Vec::new()
+fn unhex(s: &str) -> Vec<u8> {
+    let b = s.as_bytes();
+    let v = |c: u8| match c {
+        b'0'..=b'9' => c - b'0',
+        b'a'..=b'f' => c - b'a' + 10,
+        b'A'..=b'F' => c - b'A' + 10,
+        _ => 0,
+    };
+    b.chunks(2).filter(|c| c.len() == 2).map(|c| (v(c[0]) << 4) | v(c[1])).collect()
 }
 
-pub fn workers() -> Vec<(&'static str, WorkerFn)> {
-    Vec::new()
+fn fnv(b: &[u8]) -> u64 {
+    let mut h: u64 = 0xcbf29ce484222325;
+    for x in b {
+        h ^= *x as u64;
+        h = h.wrapping_mul(0x100000001b3);
+    }
+    h
+}
+
+/// CRC-32 (IEEE 802.3, reflected, init/xorout 0xffffffff) — what the spec calls "CRC32".
+fn crc32(data: &[u8]) -> u32 {
+    static TABLE: std::sync::OnceLock<[u32; 256]> = std::sync::OnceLock::new();
+    let t = TABLE.get_or_init(|| {
+        let mut t = [0u32; 256];
+        for (i, e) in t.iter_mut().enumerate() {
+            let mut c = i as u32;
+            for _ in 0..8 {
+                c = if c & 1 != 0 { 0xEDB88320 ^ (c >> 1) } else { c >> 1 };
+            }
+            *e = c;
+        }
+        t
+    });
+    let mut c = 0xffff_ffffu32;
+    for b in data {
+        c = t[((c ^ *b as u32) & 0xff) as usize] ^ (c >> 8);
+    }
+    c ^ 0xffff_ffff
+}
+
+fn rd16(b: &[u8], o: usize) -> u16 {
+    u16::from_le_bytes([b[o], b[o + 1]])
+}
+fn rd32(b: &[u8], o: usize) -> u32 {
+    u32::from_le_bytes([b[o], b[o + 1], b[o + 2], b[o + 3]])
+}
+
+/// Recompute the header checksum of a (possibly mutated) container, if the header is complete
+/// and the section table offset lies inside the file (spec §4.1: CRC32 over
+/// `section_table_off..EOF`, stored at byte 20).
+fn fix_crc(b: &mut [u8]) {
+    if b.len() < 24 {
+        return;
+    }
+    let off = rd32(b, 16) as usize;
+    if off < 24 || off > b.len() {
+        return;
+    }
+    let c = crc32(&b[off..]);
+    b[20..24].copy_from_slice(&c.to_le_bytes());
+}
+
+fn clip(s: &str, n: usize) -> String {
+    let mut out: String = s.chars().take(n).collect();
+    if s.chars().count() > n {
+        out.push('…');
+    }
+    out
+}
+
+fn norm_msg(m: &str) -> String {
+    let s: String = m.chars().map(|c| if c.is_ascii_digit() { '#' } else { c }).collect();
+    // collapse runs of '#'
+    let mut out = String::new();
+    let mut last = ' ';
+    for c in s.chars() {
+        if c == '#' && last == '#' {
+            continue;
+        }
+        out.push(c);
+        last = c;
+    }
+    clip(&out, 70)
+}
+
+// ------------------------------------------------------------------------------------------------
+// the program corpus
+// ------------------------------------------------------------------------------------------------
+
+/// Small generated programs; together they make the compiler emit every section kind and every
+/// type kind it can emit, every elementary constant type it accepts, FBs with methods,
+/// interfaces, classes, functions, CONFIGURATIONs with tasks / AT bindings / retain globals.
+/// (Constructs this compiler rejects — array/struct initialisers, untyped literals beyond DINT,
+/// two instances of one PROGRAM type, VAR_STAT — are left out.)
+pub fn generated_programs() -> Vec<(&'static str, String)> {
+    let mut v: Vec<(&'static str, String)> = Vec::new();
+    let mut add = |n: &'static str, s: &str| v.push((n, s.to_string()));
+    add("g00_empty", "PROGRAM P\nEND_PROGRAM\n");
+    add("g01_counter", "PROGRAM P\nVAR c : INT := 0; END_VAR\nc := c + 1;\nEND_PROGRAM\n");
+    add(
+        "g02_int_consts",
+        "PROGRAM P\nVAR a : SINT := 127; b : INT := 32767; c : DINT := -2147483647; d : LINT; e : USINT := 255; f : UINT := 65535; g : UDINT; h : ULINT; END_VAR\na := SINT#-128; b := INT#-2; c := DINT#2147483647; d := LINT#-9223372036854775807; e := USINT#5; f := UINT#6; g := UDINT#4294967295; h := ULINT#9223372036854775807;\nEND_PROGRAM\n",
+    );
+    add(
+        "g03_bit_real_consts",
+        "PROGRAM P\nVAR x : BOOL := TRUE; b : BYTE := 16#FF; w : WORD := 16#8000; d : DWORD; l : LWORD; r : REAL := 1.5; lr : LREAL := -2.25E3; END_VAR\nx := NOT x; b := BYTE#16#0F; w := WORD#1; d := DWORD#16#FFFFFFFF; l := LWORD#16#7FFFFFFFFFFFFFFF;\nr := r * REAL#2.0; lr := lr / LREAL#4.0;\nEND_PROGRAM\n",
+    );
+    add(
+        "g04_time_date_consts",
+        "PROGRAM P\nVAR t1 : TIME; t2 : LTIME; v1 : DATE; v2 : TIME_OF_DAY; v3 : DATE_AND_TIME; END_VAR\nt1 := T#1h2m3s4ms; t2 := LTIME#5us; v1 := D#2024-02-29; v2 := TOD#23:59:59; v3 := DT#2024-01-01-00:00:00;\nEND_PROGRAM\n",
+    );
+    add(
+        "g05_long_date_consts",
+        "PROGRAM P\nVAR v1 : LDATE; v2 : LTOD; v3 : LDT; END_VAR\nv1 := LDATE#2024-02-29; v2 := LTOD#23:59:59; v3 := LDT#2024-01-01-00:00:00;\nEND_PROGRAM\n",
+    );
+    add(
+        "g06_strings",
+        "PROGRAM P\nVAR s : STRING := 'abc'; s2 : STRING[10] := 'x'; n : INT; END_VAR\ns := CONCAT(s, 'de'); n := LEN(s); s2 := 'héllo';\nEND_PROGRAM\n",
+    );
+    add("g07_wstrings", "PROGRAM P\nVAR w : WSTRING := \"wide\"; s : STRING; END_VAR\nw := \"other\"; s := '';\nEND_PROGRAM\n");
+    add(
+        "g08_struct",
+        "TYPE S : STRUCT a : INT; b : BOOL; END_STRUCT END_TYPE\nPROGRAM P\nVAR s : S; t : S; END_VAR\ns.a := t.a + 1; s.b := NOT t.b;\nEND_PROGRAM\n",
+    );
+    add(
+        "g09_enum",
+        "TYPE E : (Idle := 0, Run := 1, Stop := 5); END_TYPE\nPROGRAM P\nVAR e : E := E#Run; n : INT; END_VAR\nCASE e OF\n E#Idle: n := 0;\n E#Run: n := 1;\nELSE n := 2;\nEND_CASE;\ne := E#Stop;\nEND_PROGRAM\n",
+    );
+    add(
+        "g10_enum_base",
+        "TYPE E2 : (Red := 1, Green := 2, Blue := 3) INT; END_TYPE\nPROGRAM P\nVAR e : E2 := E2#Green; END_VAR\ne := E2#Blue;\nEND_PROGRAM\n",
+    );
+    add(
+        "g11_array1",
+        "PROGRAM P\nVAR a : ARRAY[-1..2] OF INT; i : INT; END_VAR\nFOR i := -1 TO 2 DO a[i] := a[i] + 1; END_FOR;\nEND_PROGRAM\n",
+    );
+    add("g12_array2", "PROGRAM P\nVAR m : ARRAY[0..1, 0..2] OF DINT; END_VAR\nm[1, 2] := m[0, 0] + DINT#1;\nEND_PROGRAM\n");
+    add(
+        "g13_alias_subrange",
+        "TYPE\n MyAlias : INT;\n MySub : INT(0..10);\n MyArr : ARRAY[1..3] OF INT;\nEND_TYPE\nPROGRAM P\nVAR a : MyAlias := 3; s : MySub := 4; r : MyArr; END_VAR\na := a + 1; s := 5; r[1] := a;\nEND_PROGRAM\n",
+    );
+    add(
+        "g14_union_ref",
+        "TYPE\n U : UNION u1 : INT; u2 : BOOL; END_UNION;\n R : REF_TO INT;\nEND_TYPE\nPROGRAM P\nVAR u : U; r : R; x : INT; END_VAR\nr := REF(x);\nr^ := 2;\nEND_PROGRAM\n",
+    );
+    add(
+        "g15_nested_types",
+        "TYPE\n Inner : STRUCT v : ARRAY[0..1] OF INT; f : REAL; END_STRUCT;\n Outer : STRUCT i : Inner; n : INT; END_STRUCT;\nEND_TYPE\nPROGRAM P\nVAR o : Outer; arr : ARRAY[0..1] OF Inner; k : INT; END_VAR\no.n := 7; k := o.n;\nEND_PROGRAM\n",
+    );
+    add(
+        "g16_function",
+        "FUNCTION Add : INT\nVAR_INPUT a : INT; b : INT := 2; END_VAR\nAdd := a + b;\nEND_FUNCTION\nPROGRAM P\nVAR r : INT; END_VAR\nr := Add(1, 2); r := Add(a := 3);\nEND_PROGRAM\n",
+    );
+    add(
+        "g17_function_inout",
+        "FUNCTION Swap : BOOL\nVAR_IN_OUT a : INT; b : INT; END_VAR\nVAR_OUTPUT done : BOOL; END_VAR\nVAR t : INT; END_VAR\nt := a; a := b; b := t; done := TRUE; Swap := TRUE;\nEND_FUNCTION\nPROGRAM P\nVAR x : INT := 1; y : INT := 2; ok : BOOL; d : BOOL; END_VAR\nok := Swap(a := x, b := y, done => d);\nEND_PROGRAM\n",
+    );
+    add(
+        "g18_fb",
+        "FUNCTION_BLOCK Acc\nVAR_INPUT inc : INT; END_VAR\nVAR_OUTPUT total : INT; END_VAR\nVAR n : INT := 0; END_VAR\nn := n + inc; total := n;\nEND_FUNCTION_BLOCK\nPROGRAM P\nVAR a : Acc; b : Acc; r : INT; END_VAR\na(inc := 1); b(inc := 2, total => r); r := r + a.total;\nEND_PROGRAM\n",
+    );
+    add(
+        "g19_fb_method",
+        "FUNCTION_BLOCK Cnt\nVAR v : INT := 0; END_VAR\nMETHOD PUBLIC Inc : INT\nVAR_INPUT amount : INT; END_VAR\nv := v + amount; Inc := v;\nEND_METHOD\nMETHOD PUBLIC Reset\nv := 0;\nEND_METHOD\nEND_FUNCTION_BLOCK\nPROGRAM P\nVAR c : Cnt; r : INT; END_VAR\nr := c.Inc(amount := 2); c.Reset();\nEND_PROGRAM\n",
+    );
+    add(
+        "g20_interface",
+        "INTERFACE ICount\nMETHOD Inc : INT\nEND_METHOD\nMETHOD Cur : INT\nEND_METHOD\nEND_INTERFACE\nFUNCTION_BLOCK Impl IMPLEMENTS ICount\nVAR v : INT; END_VAR\nMETHOD PUBLIC Inc : INT\nv := v + 1; Inc := v;\nEND_METHOD\nMETHOD PUBLIC Cur : INT\nCur := v;\nEND_METHOD\nEND_FUNCTION_BLOCK\nPROGRAM P\nVAR i : ICount; f : Impl; r : INT; END_VAR\ni := f; r := i.Inc(); r := i.Cur();\nEND_PROGRAM\n",
+    );
+    add(
+        "g21_class_inherit",
+        "CLASS Base\nMETHOD PUBLIC Foo : INT\nFoo := INT#1;\nEND_METHOD\nEND_CLASS\nCLASS Derived EXTENDS Base\nMETHOD PUBLIC OVERRIDE Foo : INT\nFoo := INT#2;\nEND_METHOD\nMETHOD PUBLIC Bar : INT\nBar := INT#3;\nEND_METHOD\nEND_CLASS\nPROGRAM P\nVAR o : Derived; r : INT; END_VAR\nr := o.Foo(); r := o.Bar();\nEND_PROGRAM\n",
+    );
+    add(
+        "g22_iface_inherit",
+        "INTERFACE IBase\nMETHOD Foo : INT\nEND_METHOD\nEND_INTERFACE\nINTERFACE IDerived EXTENDS IBase\nMETHOD Bar : INT\nEND_METHOD\nEND_INTERFACE\nCLASS Impl IMPLEMENTS IDerived\nMETHOD PUBLIC Foo : INT\nFoo := INT#1;\nEND_METHOD\nMETHOD PUBLIC Bar : INT\nBar := INT#2;\nEND_METHOD\nEND_CLASS\nPROGRAM P\nVAR i : IDerived; b : IBase; c : Impl; END_VAR\ni := c;\nEND_PROGRAM\n",
+    );
+    add(
+        "g23_fb_extends",
+        "FUNCTION_BLOCK A\nVAR x : INT; END_VAR\nMETHOD PUBLIC M : INT\nM := x;\nEND_METHOD\nx := x + 1;\nEND_FUNCTION_BLOCK\nFUNCTION_BLOCK B EXTENDS A\nVAR y : INT; END_VAR\nMETHOD PUBLIC OVERRIDE M : INT\nM := y;\nEND_METHOD\ny := y + 2;\nEND_FUNCTION_BLOCK\nPROGRAM P\nVAR b : B; r : INT; END_VAR\nb(); r := b.M();\nEND_PROGRAM\n",
+    );
+    add(
+        "g24_config_task",
+        "PROGRAM Main\nVAR c : INT := 0; END_VAR\nc := c + 1;\nEND_PROGRAM\nCONFIGURATION C\nRESOURCE R ON CPU\nTASK T (INTERVAL := T#10ms, PRIORITY := 0);\nPROGRAM Main WITH T : Main;\nEND_RESOURCE\nEND_CONFIGURATION\n",
+    );
+    add(
+        "g25_config_two_tasks",
+        "PROGRAM A\nVAR n : INT; END_VAR\nn := n + 1;\nEND_PROGRAM\nPROGRAM B\nVAR n : INT; END_VAR\nn := n + 2;\nEND_PROGRAM\nPROGRAM D\nVAR n : INT; END_VAR\nn := n + 3;\nEND_PROGRAM\nCONFIGURATION C\nVAR_GLOBAL trigger : BOOL := FALSE; END_VAR\nTASK Fast (INTERVAL := T#1ms, PRIORITY := 1);\nTASK Ev (SINGLE := trigger, PRIORITY := 1);\nPROGRAM PA WITH Fast : A;\nPROGRAM PB WITH Ev : B;\nPROGRAM PD : D;\nEND_CONFIGURATION\n",
+    );
+    add(
+        "g26_config_fb_task",
+        "FUNCTION_BLOCK FB\nVAR_INPUT IN : BOOL; END_VAR\nVAR_OUTPUT OUT : BOOL; END_VAR\nOUT := IN;\nEND_FUNCTION_BLOCK\nPROGRAM P\nVAR fb : FB; END_VAR\nEND_PROGRAM\nCONFIGURATION C\nRESOURCE R ON CPU\nVAR_GLOBAL trigger : BOOL; END_VAR\nTASK T (SINGLE := trigger, INTERVAL := T#0ms, PRIORITY := 0);\nPROGRAM P1 WITH T : P (fb WITH T);\nEND_RESOURCE\nEND_CONFIGURATION\n",
+    );
+    add(
+        "g27_var_config_at",
+        "PROGRAM D\nVAR raw : WORD; alarm : BOOL; END_VAR\nalarm := WORD_TO_UINT(raw) >= 500;\nEND_PROGRAM\nCONFIGURATION C\nTASK Cycle (INTERVAL := T#100ms, PRIORITY := 1);\nPROGRAM P1 WITH Cycle : D;\nVAR_CONFIG\n P1.raw AT %IW0 : WORD;\n P1.alarm AT %QX0.0 : BOOL;\nEND_VAR\nEND_CONFIGURATION\n",
+    );
+    add(
+        "g28_at_direct",
+        "PROGRAM P\nVAR\n i0 AT %IX0.0 : BOOL; q0 AT %QX1.7 : BOOL; iw AT %IW2 : INT; qd AT %QD4 : DINT; mb AT %MB0 : BYTE; ml AT %ML8 : LWORD;\nEND_VAR\nq0 := i0; qd := iw; mb := BYTE#1;\nEND_PROGRAM\n",
+    );
+    add(
+        "g29_globals_retain",
+        "PROGRAM Main\nVAR_EXTERNAL g : INT; r : DINT; END_VAR\ng := g + 1; r := r + DINT#1;\nEND_PROGRAM\nCONFIGURATION C\nVAR_GLOBAL g : INT := 7; END_VAR\nVAR_GLOBAL RETAIN r : DINT := 42; keep : STRING := 'keep'; END_VAR\nVAR_GLOBAL PERSISTENT pers : REAL := 1.5; END_VAR\nVAR_GLOBAL NON_RETAIN nr : BOOL := TRUE; END_VAR\nVAR_GLOBAL CONSTANT K : INT := 3; END_VAR\nPROGRAM P1 : Main;\nEND_CONFIGURATION\n",
+    );
+    add(
+        "g30_local_retain",
+        "PROGRAM P\nVAR RETAIN a : INT := 1; END_VAR\nVAR PERSISTENT b : INT := 2; END_VAR\nVAR NON_RETAIN c : INT := 3; END_VAR\nVAR CONSTANT K : INT := 9; END_VAR\nVAR_TEMP t : INT; END_VAR\nt := K; a := a + t; b := b + c;\nEND_PROGRAM\n",
+    );
+    add(
+        "g31_global_aggregates",
+        "TYPE S : STRUCT a : INT; b : ARRAY[0..2] OF BOOL; END_STRUCT; E : (X0, X1); END_TYPE\nPROGRAM Main\nEND_PROGRAM\nCONFIGURATION C\nVAR_GLOBAL RETAIN gs : S; arr : ARRAY[0..2] OF INT; ge : E := E#X1; gt : TIME := T#5s; END_VAR\nPROGRAM P1 : Main;\nEND_CONFIGURATION\n",
+    );
+    add(
+        "g32_control_flow",
+        "PROGRAM P\nVAR i : INT; n : INT; b : BOOL; END_VAR\nIF n = 0 THEN n := 1; ELSIF n = 1 THEN n := 2; ELSE n := 3; END_IF;\nCASE n OF 1, 2: b := TRUE; 3..5: b := FALSE; ELSE b := NOT b; END_CASE;\nFOR i := 0 TO 10 BY 2 DO IF i = 4 THEN CONTINUE; END_IF; IF i = 8 THEN EXIT; END_IF; n := n + i; END_FOR;\nWHILE n > 0 DO n := n - 1; END_WHILE;\nREPEAT n := n + 1; UNTIL n >= 3 END_REPEAT;\nIF b THEN RETURN; END_IF;\nn := 0;\nEND_PROGRAM\n",
+    );
+    add(
+        "g33_std_fbs",
+        "PROGRAM P\nVAR t : TON; c : CTU; r : R_TRIG; q : BOOL; pv : INT := 3; END_VAR\nt(IN := TRUE, PT := T#1s); q := t.Q;\nr(CLK := q); c(CU := r.Q, R := FALSE, PV := pv); q := c.Q;\nEND_PROGRAM\n",
+    );
+    add(
+        "g34_std_functions",
+        "PROGRAM P\nVAR a : INT := -3; r : REAL := 2.0; d : DINT; b : BOOL; END_VAR\na := ABS(a); r := SQRT(r); a := MAX(a, 4); a := MIN(a, 9); a := SEL(b, a, 1); a := LIMIT(0, a, 5);\nd := INT_TO_DINT(a); r := DINT_TO_REAL(d); a := a MOD 3; r := r ** 2.0;\nEND_PROGRAM\n",
+    );
+    add(
+        "g35_bit_ops",
+        "PROGRAM P\nVAR w : WORD := 16#00F0; b : BOOL; END_VAR\nw := SHL(w, 2); w := SHR(w, 1); w := ROL(w, 3); w := ROR(w, 3);\nb := (w > WORD#1) AND (w <> WORD#0) XOR TRUE; b := w <= WORD#5 OR w >= WORD#6 OR w < WORD#7;\nEND_PROGRAM\n",
+    );
+    add(
+        "g36_namespace",
+        "NAMESPACE N1\nFUNCTION Twice : INT\nVAR_INPUT a : INT; END_VAR\nTwice := a * 2;\nEND_FUNCTION\nEND_NAMESPACE\nPROGRAM P\nVAR r : INT; END_VAR\nr := N1.Twice(4);\nEND_PROGRAM\n",
+    );
+    add(
+        "g37_fb_array_nested",
+        "FUNCTION_BLOCK Leaf\nVAR n : INT; END_VAR\nn := n + 1;\nEND_FUNCTION_BLOCK\nFUNCTION_BLOCK Node\nVAR l : Leaf; k : ARRAY[0..1] OF Leaf; END_VAR\nl(); k[0](); k[1]();\nEND_FUNCTION_BLOCK\nPROGRAM P\nVAR n : Node; END_VAR\nn();\nEND_PROGRAM\n",
+    );
+    add(
+        "g38_property",
+        "FUNCTION_BLOCK Pr\nVAR v : INT; END_VAR\nPUBLIC PROPERTY Val : INT\nGET\nVal := v;\nEND_GET\nSET\nv := Val;\nEND_SET\nEND_PROPERTY\nEND_FUNCTION_BLOCK\nPROGRAM P\nVAR p1 : Pr; r : INT; END_VAR\np1.Val := 3; r := p1.Val;\nEND_PROGRAM\n",
+    );
+    add(
+        "g39_struct_defaults",
+        "TYPE S : STRUCT a : INT := 1; s : STRING := 'x'; t : TIME := T#1s; END_STRUCT END_TYPE\nPROGRAM P\nVAR x : S; y : ARRAY[0..1] OF S; END_VAR\nx.a := x.a + 1;\nEND_PROGRAM\n",
+    );
+    add(
+        "g40_two_programs_shared",
+        "FUNCTION F : DINT\nVAR_INPUT a : DINT; END_VAR\nF := a + DINT#1;\nEND_FUNCTION\nPROGRAM A\nVAR v : DINT; END_VAR\nv := F(v);\nEND_PROGRAM\nPROGRAM B\nVAR v : DINT; END_VAR\nv := F(F(v));\nEND_PROGRAM\nCONFIGURATION C\nTASK T1 (INTERVAL := T#5ms, PRIORITY := 2);\nTASK T2 (INTERVAL := T#1s, PRIORITY := 65535);\nPROGRAM IA WITH T1 : A;\nPROGRAM IB WITH T2 : B;\nEND_CONFIGURATION\n",
+    );
+    add(
+        "g41_unused_fb",
+        "PROGRAM P\nVAR n : INT; END_VAR\nn := n + 1;\nEND_PROGRAM\nFUNCTION_BLOCK W\nVAR calls : UDINT; END_VAR\ncalls := calls + 1;\nEND_FUNCTION_BLOCK\n",
+    );
+    v
+}
+
+#[derive(Clone)]
+pub struct Prog {
+    pub name: String,
+    /// (path, text); one entry for single-file programs
+    pub files: Vec<(String, String)>,
+    pub origin: &'static str, // "gen" | "file" | "project"
+}
+
+impl Prog {
+    fn session(&self) -> CompileSession {
+        if self.files.len() == 1 && self.origin != "project" {
+            CompileSession::from_source(self.files[0].1.clone())
+        } else {
+            CompileSession::from_sources(
+                self.files.iter().map(|(p, t)| SourceFile::with_path(p.clone(), t.clone())).collect(),
+            )
+        }
+    }
+    fn to_json(&self) -> Value {
+        json!({"name": self.name, "origin": self.origin,
+               "files": self.files.iter().map(|(p, t)| json!([p, t])).collect::<Vec<_>>()})
+    }
+    fn from_json(v: &Value) -> Prog {
+        let origin = match v["origin"].as_str() {
+            Some("gen") => "gen",
+            Some("project") => "project",
+            _ => "file",
+        };
+        Prog {
+            name: v["name"].as_str().unwrap_or("?").to_string(),
+            origin,
+            files: v["files"]
+                .as_array()
+                .cloned()
+                .unwrap_or_default()
+                .iter()
+                .map(|f| (f[0].as_str().unwrap_or("").to_string(), f[1].as_str().unwrap_or("").to_string()))
+                .collect(),
+        }
+    }
+}
+
+pub fn section_name(id: u16) -> &'static str {
+    match id {
+        1 => "STRING_TABLE",
+        2 => "TYPE_TABLE",
+        3 => "CONST_POOL",
+        4 => "REF_TABLE",
+        5 => "POU_INDEX",
+        6 => "POU_BODIES",
+        7 => "RESOURCE_META",
+        8 => "IO_MAP",
+        9 => "DEBUG_MAP",
+        10 => "DEBUG_STRING_TABLE",
+        11 => "VAR_META",
+        12 => "RETAIN_INIT",
+        _ => "UNKNOWN",
+    }
+}
+
+/// Result of the round-trip clauses on one program.
+pub struct RoundTrip {
+    /// None = the program does not compile to bytecode (not a case); Some(reason)
+    pub not_a_case: Option<String>,
+    pub bytes: Vec<u8>,
+    /// (clause, feature, detail)
+    pub bad: Vec<(String, String, String)>,
+    pub section_ids: Vec<u16>,
+    pub type_kinds: Vec<u8>,
+    pub apply_ok: bool,
+    /// the emitted bytes decode and validate (usable as a mutation seed)
+    pub valid_container: bool,
+}
+
+/// Runs every round-trip clause on one program (in-process; panics of the subject are caught).
+pub fn roundtrip(p: &Prog) -> RoundTrip {
+    let mut rt = RoundTrip { not_a_case: None, bytes: Vec::new(), bad: Vec::new(), section_ids: Vec::new(), type_kinds: Vec::new(), apply_ok: false, valid_container: false };
+    let sess = p.session();
+    let module = match catch(|| sess.build_bytecode_module()) {
+        Ok(Ok(m)) => m,
+        Ok(Err(e)) => {
+            rt.not_a_case = Some(format!("compile error: {}", clip(&e.to_string(), 100)));
+            return rt;
+        }
+        Err(m) => {
+            rt.not_a_case = Some(format!("compiler panic: {}", clip(&m, 100)));
+            return rt;
+        }
+    };
+    // (1) every container the compiler emits validates
+    match catch(|| module.validate()) {
+        Ok(Ok(())) => {}
+        Ok(Err(e)) => rt.bad.push(("emit-validates".into(), variant_of(&format!("{e:?}")), format!("validate(compile(p)) = Err({e})"))),
+        Err(m) => rt.bad.push(("panic".into(), "validate".into(), m)),
+    }
+    let bytes = match catch(|| module.encode()) {
+        Ok(Ok(b)) => b,
+        Ok(Err(e)) => {
+            rt.bad.push(("encode".into(), variant_of(&format!("{e:?}")), format!("encode(compile(p)) = Err({e})")));
+            return rt;
+        }
+        Err(m) => {
+            rt.bad.push(("panic".into(), "encode".into(), m));
+            return rt;
+        }
+    };
+    rt.bytes = bytes.clone();
+    for s in &module.sections {
+        rt.section_ids.push(s.id);
+        if let SectionData::TypeTable(t) = &s.data {
+            for e in &t.entries {
+                rt.type_kinds.push(e.kind as u8);
+            }
+        }
+    }
+    // (2) decode(encode(m)) == m
+    let decoded = match catch(|| BytecodeModule::decode(&bytes)) {
+        Ok(Ok(d)) => d,
+        Ok(Err(e)) => {
+            rt.bad.push(("decode-of-encoded".into(), variant_of(&format!("{e:?}")), format!("decode(encode(m)) = Err({e})")));
+            return rt;
+        }
+        Err(m) => {
+            rt.bad.push(("panic".into(), "decode".into(), m));
+            return rt;
+        }
+    };
+    if decoded != module {
+        let mut feat = "header".to_string();
+        let mut detail = format!("version/flags {:?}/{:#x} vs {:?}/{:#x}", decoded.version, decoded.flags, module.version, module.flags);
+        if decoded.sections.len() != module.sections.len() {
+            feat = "section-count".into();
+            detail = format!("{} sections decoded, {} encoded", decoded.sections.len(), module.sections.len());
+        } else {
+            for (a, b) in decoded.sections.iter().zip(&module.sections) {
+                if a != b {
+                    feat = section_name(b.id).to_string();
+                    let (da, db) = (format!("{:?}", a.data), format!("{:?}", b.data));
+                    let p = da.bytes().zip(db.bytes()).position(|(x, y)| x != y).unwrap_or(da.len().min(db.len()));
+                    let ctx = |t: &str| {
+                        let st = p.saturating_sub(60);
+                        let st = (0..=st).rev().find(|i| t.is_char_boundary(*i)).unwrap_or(0);
+                        clip(&t[st..], 110)
+                    };
+                    detail = format!("section {} differs after decode(encode(m)): decoded …{} vs compiled …{}", feat, ctx(&da), ctx(&db));
+                    break;
+                }
+            }
+        }
+        rt.bad.push(("decode-encode-module".into(), feat, detail));
+    }
+    // every emitted container validates (as bytes, after decoding)
+    match catch(|| decoded.validate()) {
+        Ok(Ok(())) => rt.valid_container = true,
+        Ok(Err(e)) => rt.bad.push(("emit-validates".into(), variant_of(&format!("{e:?}")), format!("validate(decode(encode(compile(p)))) = Err({e})"))),
+        Err(m) => rt.bad.push(("panic".into(), "validate".into(), m)),
+    }
+    // (3) encode(decode(e)) == e byte for byte
+    match catch(|| decoded.encode()) {
+        Ok(Ok(b2)) => {
+            if b2 != bytes {
+                // first differing byte behind the header if there is one (the checksum at 20..24 differs
+                // whenever anything behind it does), else the first differing byte
+                let first = |from: usize| (from..b2.len().min(bytes.len())).find(|&i| b2[i] != bytes[i]);
+                let pos = first(24).or_else(|| first(0)).unwrap_or(b2.len().min(bytes.len()));
+                let (sec, fld) = match walk(&bytes) {
+                    Ok(l) => l.label_at(pos),
+                    Err(_) if pos < 24 => ("HEADER", ["magic", "magic", "version", "version", "flags", "flags", "header_size", "section_count", "section_table_off", "section_table_off", "checksum", "checksum"][pos / 2]),
+                    Err(_) => ("BODY", "unwalkable"),
+                };
+                rt.bad.push((
+                    "encode-decode-bytes".into(),
+                    format!("{sec}.{fld}"),
+                    format!("encode(decode(e)) differs from e at byte {pos} ({sec}.{fld}); lengths {} vs {}", b2.len(), bytes.len()),
+                ));
+            }
+        }
+        Ok(Err(e)) => rt.bad.push(("encode".into(), variant_of(&format!("{e:?}")), format!("encode(decode(e)) = Err({e})"))),
+        Err(m) => rt.bad.push(("panic".into(), "encode".into(), m)),
+    }
+    // metadata + apply to the runtime compiled from the same program: must not panic
+    match catch(|| decoded.metadata()) {
+        Ok(_) => {}
+        Err(m) => rt.bad.push(("panic".into(), "metadata".into(), m)),
+    }
+    match catch(|| sess.build_runtime()) {
+        Ok(Ok(mut runtime)) => match catch(move || {
+            let r = runtime.apply_bytecode_bytes(&bytes, None);
+            let ok = r.is_ok();
+            if ok {
+                let _ = runtime.restart(trust_runtime::RestartMode::Warm);
+                let _ = runtime.load_retain_store();
+                let _ = runtime.metadata_snapshot();
+            }
+            ok
+        }) {
+            Ok(ok) => rt.apply_ok = ok,
+            Err(m) => rt.bad.push(("panic".into(), "apply".into(), m)),
+        },
+        _ => {}
+    }
+    rt
+}
+
+/// `InvalidIndex { kind: "type", index: 3 }` -> `InvalidIndex:type`; `UnexpectedEof` -> itself.
+fn variant_of(dbg: &str) -> String {
+    let name: String = dbg.chars().take_while(|c| c.is_ascii_alphanumeric()).collect();
+    if name == "InvalidIndex" {
+        if let Some(p) = dbg.find("kind: \"") {
+            let k: String = dbg[p + 7..].chars().take_while(|c| *c != '"').collect();
+            return format!("{name}:{k}");
+        }
+    }
+    if name == "InvalidSection" || name == "InvalidHeader" || name == "InvalidSectionTable" || name == "MissingSection" {
+        if let Some(p) = dbg.find('"') {
+            let k: String = dbg[p + 1..].chars().take_while(|c| *c != '"' && *c != '\'').collect();
+            let k: String = k.trim().chars().map(|c| if c.is_ascii_alphanumeric() { c } else { '_' }).collect();
+            return format!("{name}:{}", clip(&k, 40));
+        }
+    }
+    name
+}
+
+// ------------------------------------------------------------------------------------------------
+// layout walker (labels only; written from docs/specs/10-runtime.md "ST Bytecode Format" §4–§7)
+// ------------------------------------------------------------------------------------------------
+
+#[derive(Clone, Copy, PartialEq, Eq, Debug)]
+pub enum Role {
+    /// u32/u16 element count that sizes an array in the file
+    Count,
+    /// byte length / size / offset
+    Len,
+    /// index into another table
+    Index,
+    /// index into TYPE_TABLE (participates in the type-reference family)
+    TypeRef,
+    /// enumeration tag with a small domain (`dom` = number of valid values)
+    Tag(u8),
+    /// plain value
+    Val,
+    /// raw bytes / padding
+    Bytes,
+}
+
+#[derive(Clone, Debug)]
+pub struct Fld {
+    pub off: usize,
+    pub len: usize,
+    pub sec: &'static str,
+    pub name: &'static str,
+    pub role: Role,
+}
+
+#[derive(Clone, Debug)]
+pub struct SecInfo {
+    pub entry_off: usize,
+    pub id: u16,
+    pub off: usize,
+    pub len: usize,
+}
+
+#[derive(Clone, Debug, Default)]
+pub struct Layout {
+    pub flds: Vec<Fld>,
+    pub secs: Vec<SecInfo>,
+    /// (offset of the first byte of type entry i, end)
+    pub type_entries: Vec<(usize, usize)>,
+    /// offsets of `type_id` of const entries
+    pub const_type_fields: Vec<usize>,
+    pub minor: u16,
+}
+
+impl Layout {
+    pub fn field_at(&self, pos: usize) -> Option<&Fld> {
+        // fields are sorted by offset per construction order is not guaranteed: sort done in walk()
+        let i = self.flds.partition_point(|f| f.off + f.len <= pos);
+        self.flds.get(i).filter(|f| f.off <= pos && pos < f.off + f.len)
+    }
+    pub fn label_at(&self, pos: usize) -> (&'static str, &'static str) {
+        match self.field_at(pos) {
+            Some(f) => (f.sec, f.name),
+            None => ("EOF", "end"),
+        }
+    }
+    pub fn section_of(&self, pos: usize) -> Option<&SecInfo> {
+        self.secs.iter().find(|s| s.off <= pos && pos < s.off + s.len)
+    }
+}
+
+struct Cur<'a> {
+    b: &'a [u8],
+    pos: usize,
+    end: usize,
+    sec: &'static str,
+    out: Vec<Fld>,
+}
+
+impl<'a> Cur<'a> {
+    fn take(&mut self, n: usize, name: &'static str, role: Role) -> Result<usize, String> {
+        if self.pos + n > self.end {
+            return Err(format!("layout walker: {}.{} needs {} bytes at {}, section ends at {}", self.sec, name, n, self.pos, self.end));
+        }
+        let o = self.pos;
+        if n > 0 {
+            self.out.push(Fld { off: o, len: n, sec: self.sec, name, role });
+        }
+        self.pos += n;
+        Ok(o)
+    }
+    fn u8(&mut self, name: &'static str, role: Role) -> Result<u8, String> {
+        let o = self.take(1, name, role)?;
+        Ok(self.b[o])
+    }
+    fn u16(&mut self, name: &'static str, role: Role) -> Result<u16, String> {
+        let o = self.take(2, name, role)?;
+        Ok(rd16(self.b, o))
+    }
+    fn u32(&mut self, name: &'static str, role: Role) -> Result<u32, String> {
+        let o = self.take(4, name, role)?;
+        Ok(rd32(self.b, o))
+    }
+    fn i64(&mut self, name: &'static str) -> Result<(), String> {
+        self.take(8, name, Role::Val).map(|_| ())
+    }
+}
+
+fn walk_string_table(c: &mut Cur, minor: u16) -> Result<(), String> {
+    let n = c.u32("count", Role::Count)?;
+    for _ in 0..n {
+        let l = c.u32("str_len", Role::Len)? as usize;
+        c.take(l, "str_bytes", Role::Bytes)?;
+        if minor >= 1 {
+            let pad = (4 - (4 + l) % 4) % 4;
+            c.take(pad, "str_pad", Role::Bytes)?;
+        }
+    }
+    Ok(())
+}
+
+fn walk_type_entry(c: &mut Cur) -> Result<(), String> {
+    let kind = c.u8("kind", Role::Tag(11))?;
+    c.u8("flags", Role::Val)?;
+    c.u16("reserved", Role::Val)?;
+    c.u32("name_idx", Role::Index)?;
+    match kind {
+        0 => {
+            c.u16("prim_id", Role::Val)?;
+            c.u16("max_length", Role::Val)?;
+        }
+        1 => {
+            c.u32("elem_type_id", Role::TypeRef)?;
+            let n = c.u32("dim_count", Role::Count)?;
+            for _ in 0..n {
+                c.i64("dim_lower")?;
+                c.i64("dim_upper")?;
+            }
+        }
+        2 | 7 => {
+            let n = c.u32("field_count", Role::Count)?;
+            for _ in 0..n {
+                c.u32("field_name_idx", Role::Index)?;
+                c.u32("field_type_id", Role::TypeRef)?;
+            }
+        }
+        3 => {
+            c.u32("base_type_id", Role::TypeRef)?;
+            let n = c.u32("variant_count", Role::Count)?;
+            for _ in 0..n {
+                c.u32("variant_name_idx", Role::Index)?;
+                c.i64("variant_value")?;
+            }
+        }
+        4 | 6 => {
+            c.u32("target_type_id", Role::TypeRef)?;
+        }
+        5 => {
+            c.u32("base_type_id", Role::TypeRef)?;
+            c.i64("sub_lower")?;
+            c.i64("sub_upper")?;
+        }
+        8 | 9 => {
+            c.u32("pou_id", Role::Index)?;
+        }
+        10 => {
+            let n = c.u32("method_count", Role::Count)?;
+            for _ in 0..n {
+                c.u32("method_name_idx", Role::Index)?;
+                c.u32("method_slot", Role::Val)?;
+            }
+        }
+        k => return Err(format!("layout walker: unknown type kind {k}")),
+    }
+    Ok(())
+}
+
+fn walk_pou_bodies(c: &mut Cur, ranges: &[(usize, usize)]) {
+    // per-POU instruction streams (spec §7.3); anything not covered is labelled "code"
+    let base = c.pos;
+    let end = c.end;
+    let mut covered = vec![false; end - base];
+    let mut ranges: Vec<(usize, usize)> = ranges.to_vec();
+    ranges.sort();
+    ranges.dedup();
+    for (o, l) in ranges {
+        if o + l > end - base {
+            continue;
+        }
+        let mut p = base + o;
+        let stop = base + o + l;
+        let mut tmp: Vec<Fld> = Vec::new();
+        let mut ok = true;
+        while p < stop {
+            let op = c.b[p];
+            let operands: &[(usize, &'static str, Role)] = match op {
+                0x00 | 0x01 | 0x06 | 0x11..=0x15 | 0x23 | 0x31..=0x33 | 0x40..=0x4E | 0x50..=0x55 => &[],
+                0x02..=0x04 => &[(4, "jump_offset", Role::Val)],
+                0x05 => &[(4, "call_pou_id", Role::Index)],
+                0x07 => &[(4, "method_slot", Role::Val)],
+                0x08 => &[(4, "virt_type_id", Role::Index), (4, "virt_slot", Role::Val)],
+                0x10 => &[(4, "const_idx", Role::Index)],
+                0x16 => &[(1, "pick_n", Role::Val)],
+                0x20..=0x22 => &[(4, "ref_idx", Role::Index)],
+                0x30 => &[(4, "field_name_idx", Role::Index)],
+                0x60 => &[(4, "cast_type_id", Role::Index)],
+                0x70 => &[(4, "std_id", Role::Val)],
+                _ => {
+                    ok = false;
+                    break;
+                }
+            };
+            tmp.push(Fld { off: p, len: 1, sec: "POU_BODIES", name: "opcode", role: Role::Tag(0) });
+            p += 1;
+            for (n, name, role) in operands {
+                if p + n > stop {
+                    ok = false;
+                    break;
+                }
+                tmp.push(Fld { off: p, len: *n, sec: "POU_BODIES", name, role: *role });
+                p += n;
+            }
+            if !ok {
+                break;
+            }
+        }
+        if ok && tmp.iter().all(|f| (f.off..f.off + f.len).all(|q| !covered[q - base])) {
+            for f in &tmp {
+                for q in f.off..f.off + f.len {
+                    covered[q - base] = true;
+                }
+            }
+            c.out.extend(tmp);
+        }
+    }
+    // uncovered bytes
+    let mut q = base;
+    while q < end {
+        if covered[q - base] {
+            q += 1;
+            continue;
+        }
+        let s = q;
+        while q < end && !covered[q - base] {
+            q += 1;
+        }
+        c.out.push(Fld { off: s, len: q - s, sec: "POU_BODIES", name: "code", role: Role::Bytes });
+    }
+    c.pos = end;
+}
+
+/// Labels every byte of a VALID container. An error means the walker (machinery) and the
+/// encoder disagree about the layout.
+pub fn walk(b: &[u8]) -> Result<Layout, String> {
+    if b.len() < 24 || &b[0..4] != b"STBC" {
+        return Err("layout walker: no STBC header".into());
+    }
+    let mut lay = Layout::default();
+    let mut c = Cur { b, pos: 0, end: 24, sec: "HEADER", out: Vec::new() };
+    c.take(4, "magic", Role::Bytes)?;
+    c.u16("version_major", Role::Val)?;
+    let minor = c.u16("version_minor", Role::Val)?;
+    c.u32("flags", Role::Val)?;
+    c.u16("header_size", Role::Len)?;
+    let nsec = c.u16("section_count", Role::Count)? as usize;
+    let toff = c.u32("section_table_off", Role::Len)? as usize;
+    c.u32("checksum", Role::Val)?;
+    lay.minor = minor;
+    if toff < 24 || toff + nsec * 12 > b.len() {
+        return Err("layout walker: section table out of bounds".into());
+    }
+    c.sec = "SECTION_TABLE";
+    c.pos = toff;
+    c.end = toff + nsec * 12;
+    for _ in 0..nsec {
+        let eo = c.pos;
+        let id = c.u16("id", Role::Tag(13))?;
+        c.u16("flags", Role::Val)?;
+        let off = c.u32("offset", Role::Len)? as usize;
+        let len = c.u32("length", Role::Len)? as usize;
+        if off + len > b.len() {
+            return Err("layout walker: section out of bounds".into());
+        }
+        lay.secs.push(SecInfo { entry_off: eo, id, off, len });
+    }
+    // POU code ranges are needed for POU_BODIES; walk POU_INDEX before POU_BODIES
+    let mut order: Vec<usize> = (0..lay.secs.len()).collect();
+    order.sort_by_key(|&i| if lay.secs[i].id == 6 { 1 } else { 0 });
+    let mut code_ranges: Vec<(usize, usize)> = Vec::new();
+    for i in order {
+        let s = lay.secs[i].clone();
+        c.sec = section_name(s.id);
+        c.pos = s.off;
+        c.end = s.off + s.len;
+        match s.id {
+            1 | 10 => walk_string_table(&mut c, minor)?,
+            2 => {
+                let n = c.u32("count", Role::Count)? as usize;
+                if minor >= 1 {
+                    let mut offs = Vec::new();
+                    for _ in 0..n {
+                        offs.push(c.u32("entry_offset", Role::Len)? as usize);
+                    }
+                    for (k, o) in offs.iter().enumerate() {
+                        if s.off + o != c.pos {
+                            return Err(format!("layout walker: type entry {k} offset {o} not back-to-back"));
+                        }
+                        let st = c.pos;
+                        walk_type_entry(&mut c)?;
+                        lay.type_entries.push((st, c.pos));
+                    }
+                } else {
+                    for _ in 0..n {
+                        let st = c.pos;
+                        walk_type_entry(&mut c)?;
+                        lay.type_entries.push((st, c.pos));
+                    }
+                }
+            }
+            3 => {
+                let n = c.u32("count", Role::Count)?;
+                for _ in 0..n {
+                    lay.const_type_fields.push(c.pos);
+                    c.u32("type_id", Role::TypeRef)?;
+                    let l = c.u32("payload_len", Role::Len)? as usize;
+                    c.take(l, "payload", Role::Bytes)?;
+                }
+            }
+            4 => {
+                let n = c.u32("count", Role::Count)?;
+                for _ in 0..n {
+                    c.u8("location", Role::Tag(5))?;
+                    c.u8("flags", Role::Val)?;
+                    c.u16("reserved", Role::Val)?;
+                    c.u32("owner_id", Role::Val)?;
+                    c.u32("offset", Role::Val)?;
+                    let m = c.u32("segment_count", Role::Count)?;
+                    for _ in 0..m {
+                        let k = c.u8("seg_kind", Role::Tag(2))?;
+                        c.take(3, "seg_reserved", Role::Bytes)?;
+                        if k == 0 {
+                            let q = c.u32("index_count", Role::Count)?;
+                            for _ in 0..q {
+                                c.i64("index")?;
+                            }
+                        } else {
+                            c.u32("field_name_idx", Role::Index)?;
+                        }
+                    }
+                }
+            }
+            5 => {
+                let n = c.u32("count", Role::Count)?;
+                for _ in 0..n {
+                    c.u32("id", Role::Val)?;
+                    c.u32("name_idx", Role::Index)?;
+                    let kind = c.u8("kind", Role::Tag(5))?;
+                    c.u8("flags", Role::Val)?;
+                    c.u16("reserved", Role::Val)?;
+                    let co = c.u32("code_offset", Role::Len)? as usize;
+                    let cl = c.u32("code_length", Role::Len)? as usize;
+                    code_ranges.push((co, cl));
+                    c.u32("local_ref_start", Role::Index)?;
+                    c.u32("local_ref_count", Role::Val)?;
+                    c.u32("return_type_id", Role::Index)?;
+                    c.u32("owner_pou_id", Role::Index)?;
+                    let pc = c.u32("param_count", Role::Count)?;
+                    for _ in 0..pc {
+                        c.u32("param_name_idx", Role::Index)?;
+                        c.u32("param_type_id", Role::Index)?;
+                        c.u8("param_direction", Role::Tag(3))?;
+                        c.u8("param_flags", Role::Val)?;
+                        c.u16("param_reserved", Role::Val)?;
+                        if minor >= 1 {
+                            c.u32("param_default_const_idx", Role::Index)?;
+                        }
+                    }
+                    if kind == 1 || kind == 3 {
+                        c.u32("parent_pou_id", Role::Index)?;
+                        let ic = c.u32("interface_count", Role::Count)?;
+                        for _ in 0..ic {
+                            c.u32("interface_type_id", Role::Index)?;
+                            let mc = c.u32("vtable_slot_count", Role::Count)?;
+                            for _ in 0..mc {
+                                c.u32("vtable_slot", Role::Val)?;
+                            }
+                        }
+                        let mc = c.u32("method_count", Role::Count)?;
+                        for _ in 0..mc {
+                            c.u32("method_name_idx", Role::Index)?;
+                            c.u32("method_pou_id", Role::Index)?;
+                            c.u32("method_vtable_slot", Role::Val)?;
+                            c.u8("method_access", Role::Tag(3))?;
+                            c.u8("method_flags", Role::Val)?;
+                            c.u16("method_reserved", Role::Val)?;
+                        }
+                    }
+                }
+            }
+            6 => walk_pou_bodies(&mut c, &code_ranges),
+            7 => {
+                let n = c.u32("resource_count", Role::Count)?;
+                for _ in 0..n {
+                    c.u32("name_idx", Role::Index)?;
+                    c.u32("inputs_size", Role::Len)?;
+                    c.u32("outputs_size", Role::Len)?;
+                    c.u32("memory_size", Role::Len)?;
+                    let t = c.u32("task_count", Role::Count)?;
+                    for _ in 0..t {
+                        c.u32("task_name_idx", Role::Index)?;
+                        c.u32("task_priority", Role::Val)?;
+                        c.i64("task_interval")?;
+                        c.u32("task_single_name_idx", Role::Index)?;
+                        let p = c.u32("program_count", Role::Count)?;
+                        for _ in 0..p {
+                            c.u32("program_name_idx", Role::Index)?;
+                        }
+                        let f = c.u32("fb_ref_count", Role::Count)?;
+                        for _ in 0..f {
+                            c.u32("fb_ref_idx", Role::Index)?;
+                        }
+                    }
+                }
+            }
+            8 => {
+                let n = c.u32("binding_count", Role::Count)?;
+                for _ in 0..n {
+                    c.u32("address_str_idx", Role::Index)?;
+                    c.u32("ref_idx", Role::Index)?;
+                    c.u32("type_id", Role::Index)?;
+                }
+            }
+            9 => {
+                let n = c.u32("entry_count", Role::Count)?;
+                for _ in 0..n {
+                    c.u32("pou_id", Role::Index)?;
+                    c.u32("code_offset", Role::Len)?;
+                    c.u32("file_idx", Role::Index)?;
+                    c.u32("line", Role::Val)?;
+                    c.u32("column", Role::Val)?;
+                    c.u8("kind", Role::Val)?;
+                    c.take(3, "reserved", Role::Bytes)?;
+                }
+            }
+            11 => {
+                let n = c.u32("entry_count", Role::Count)?;
+                for _ in 0..n {
+                    c.u32("name_idx", Role::Index)?;
+                    c.u32("type_id", Role::Index)?;
+                    c.u32("ref_idx", Role::Index)?;
+                    c.u8("retain", Role::Tag(4))?;
+                    c.u8("reserved", Role::Val)?;
+                    c.u16("reserved2", Role::Val)?;
+                    c.u32("init_const_idx", Role::Index)?;
+                }
+            }
+            12 => {
+                let n = c.u32("entry_count", Role::Count)?;
+                for _ in 0..n {
+                    c.u32("ref_idx", Role::Index)?;
+                    c.u32("const_idx", Role::Index)?;
+                }
+            }
+            _ => {
+                let l = c.end - c.pos;
+                c.take(l, "raw", Role::Bytes)?;
+            }
+        }
+        if c.pos != c.end {
+            return Err(format!("layout walker: section {} has {} trailing bytes", c.sec, c.end - c.pos));
+        }
+    }
+    let mut flds = std::mem::take(&mut c.out);
+    flds.sort_by_key(|f| f.off);
+    // gaps = padding
+    let mut all = Vec::with_capacity(flds.len() + 16);
+    let mut pos = 0usize;
+    for f in flds {
+        if f.off < pos {
+            return Err(format!("layout walker: overlapping fields at {}", f.off));
+        }
+        if f.off > pos {
+            all.push(Fld { off: pos, len: f.off - pos, sec: "PADDING", name: "pad", role: Role::Bytes });
+        }
+        pos = f.off + f.len;
+        all.push(f);
+    }
+    if pos < b.len() {
+        all.push(Fld { off: pos, len: b.len() - pos, sec: "PADDING", name: "pad", role: Role::Bytes });
+    }
+    lay.flds = all;
+    Ok(lay)
+}
+
+// ------------------------------------------------------------------------------------------------
+// mutation families
+// ------------------------------------------------------------------------------------------------
+
+pub const FAMILIES: &[&str] = &[
+    "byte", "u16", "u32", "i64", "tag", "trunc", "trunc-fixup", "seclen", "table", "typeref", "header",
+];
+
+#[derive(Clone, Copy)]
+pub struct Edit {
+    pub off: u32,
+    pub len: u8,
+    pub data: [u8; 12],
+}
+
+#[derive(Clone, Copy)]
+pub struct Mutant {
+    pub family: u8,
+    pub fix: bool,
+    /// u32::MAX = no truncation
+    pub trunc: u32,
+    pub e0: u32,
+    pub en: u8,
+    /// offset whose layout label names the mutant
+    pub at: u32,
+}
+
+pub struct MutSet {
+    pub muts: Vec<Mutant>,
+    pub edits: Vec<Edit>,
+    pub per_family: BTreeMap<&'static str, u64>,
+    pub duplicates_dropped: u64,
+}
+
+impl MutSet {
+    pub fn edits_of(&self, m: &Mutant) -> &[Edit] {
+        &self.edits[m.e0 as usize..m.e0 as usize + m.en as usize]
+    }
+    pub fn apply(&self, m: &Mutant, seed: &[u8]) -> Vec<u8> {
+        apply_mut(seed, m.trunc, m.fix, self.edits_of(m).iter().map(|e| (e.off as usize, &e.data[..e.len as usize])))
+    }
+    /// compact text form understood by the worker: `<fam>/<trunc|->/<0|1>/<off>:<hex>[,<off>:<hex>]*`
+    pub fn text(&self, m: &Mutant) -> String {
+        let mut s = String::new();
+        s.push_str(&m.family.to_string());
+        s.push('/');
+        if m.trunc == u32::MAX {
+            s.push('-');
+        } else {
+            s.push_str(&m.trunc.to_string());
+        }
+        s.push('/');
+        s.push(if m.fix { '1' } else { '0' });
+        s.push('/');
+        for (k, e) in self.edits_of(m).iter().enumerate() {
+            if k > 0 {
+                s.push(',');
+            }
+            s.push_str(&e.off.to_string());
+            s.push(':');
+            s.push_str(&hex(&e.data[..e.len as usize]));
+        }
+        s
+    }
+    pub fn describe(&self, m: &Mutant) -> String {
+        let mut s = String::new();
+        if m.trunc != u32::MAX {
+            s.push_str(&format!("truncate to {} bytes; ", m.trunc));
+        }
+        for e in self.edits_of(m) {
+            s.push_str(&format!("bytes[{}..{}] <- {}; ", e.off, e.off + e.len as u32, hex(&e.data[..e.len as usize])));
+        }
+        s.push_str(if m.fix { "CRC recomputed" } else { "CRC left" });
+        s
+    }
+}
+
+fn apply_mut<'a>(seed: &[u8], trunc: u32, fix: bool, edits: impl Iterator<Item = (usize, &'a [u8])>) -> Vec<u8> {
+    let mut b = seed.to_vec();
+    if trunc != u32::MAX {
+        b.truncate(trunc as usize);
+    }
+    for (off, data) in edits {
+        for (k, x) in data.iter().enumerate() {
+            if off + k < b.len() {
+                b[off + k] = *x;
+            }
+        }
+    }
+    if fix {
+        fix_crc(&mut b);
+    }
+    b
+}
+
+/// parses the text form; returns (family, trunc, fix, edits)
+fn parse_mut(t: &str) -> Option<(u8, u32, bool, Vec<(usize, Vec<u8>)>)> {
+    let mut it = t.splitn(4, '/');
+    let fam: u8 = it.next()?.parse().ok()?;
+    let tr = it.next()?;
+    let trunc = if tr == "-" { u32::MAX } else { tr.parse().ok()? };
+    let fix = it.next()? == "1";
+    let mut edits = Vec::new();
+    let rest = it.next()?;
+    if !rest.is_empty() {
+        for e in rest.split(',') {
+            let (o, h) = e.split_once(':')?;
+            edits.push((o.parse().ok()?, unhex(h)));
+        }
+    }
+    Some((fam, trunc, fix, edits))
+}
+
+const OPCODES: &[u8] = &[
+    0x00, 0x01, 0x02, 0x03, 0x04, 0x05, 0x06, 0x07, 0x08, 0x10, 0x11, 0x12, 0x13, 0x14, 0x15, 0x16, 0x20, 0x21, 0x22,
+    0x23, 0x30, 0x31, 0x32, 0x33, 0x40, 0x41, 0x42, 0x43, 0x44, 0x45, 0x46, 0x47, 0x48, 0x49, 0x4A, 0x4B, 0x4C, 0x4D,
+    0x4E, 0x50, 0x51, 0x52, 0x53, 0x54, 0x55, 0x60, 0x70, /* undefined: */ 0x09, 0x80, 0xF0,
+];
+
+struct Gen<'a> {
+    seed: &'a [u8],
+    set: MutSet,
+    seen: HashSet<u64>,
+}
+
+impl<'a> Gen<'a> {
+    fn push(&mut self, family: &'static str, trunc: Option<usize>, fix: bool, at: usize, edits: &[(usize, &[u8])]) {
+        let trunc = trunc.map(|t| t as u32).unwrap_or(u32::MAX);
+        let out = apply_mut(self.seed, trunc, fix, edits.iter().map(|(o, d)| (*o, *d)));
+        if out == self.seed {
+            return;
+        }
+        if !self.seen.insert(fnv(&out) ^ (out.len() as u64).rotate_left(48)) {
+            self.set.duplicates_dropped += 1;
+            return;
+        }
+        let e0 = self.set.edits.len() as u32;
+        let mut en = 0u8;
+        for (o, d) in edits {
+            // split into chunks of at most 12 bytes
+            for (k, ch) in d.chunks(12).enumerate() {
+                let mut data = [0u8; 12];
+                data[..ch.len()].copy_from_slice(ch);
+                self.set.edits.push(Edit { off: (*o + k * 12) as u32, len: ch.len() as u8, data });
+                en += 1;
+            }
+        }
+        let fam = FAMILIES.iter().position(|f| *f == family).expect("family") as u8;
+        self.set.muts.push(Mutant { family: fam, fix, trunc, e0, en, at: at as u32 });
+        *self.set.per_family.entry(family).or_insert(0) += 1;
+    }
+}
+
+/// Enumerates all mutants of one valid container (deterministic, duplicates by resulting bytes
+/// dropped, the identity dropped).
+pub fn mutants(seed: &[u8], lay: &Layout, header_product: bool) -> MutSet {
+    let n = seed.len();
+    let mut g = Gen {
+        seed,
+        set: MutSet { muts: Vec::new(), edits: Vec::new(), per_family: BTreeMap::new(), duplicates_dropped: 0 },
+        seen: HashSet::new(),
+    };
+    let sec_len_at = |o: usize| -> (usize, usize) {
+        // (length of the enclosing section or the file, bytes remaining after a 4-byte field)
+        match lay.section_of(o) {
+            Some(s) => (s.len, (s.off + s.len).saturating_sub(o + 4)),
+            None => (n, n.saturating_sub(o + 4)),
+        }
+    };
+
+    // F1 every byte
+    for o in 0..n {
+        let b = seed[o];
+        let fix = !(20..24).contains(&o);
+        for v in [0x00, 0x01, 0x7F, 0x80, 0xFF, b.wrapping_add(1), b.wrapping_sub(1)] {
+            g.push("byte", None, fix, o, &[(o, &[v])]);
+        }
+    }
+    // F2 u16: every even offset + every 2-byte field of the layout
+    let mut pos16: BTreeSet<usize> = (0..n.saturating_sub(1)).step_by(2).collect();
+    pos16.extend(lay.flds.iter().filter(|f| f.len == 2).map(|f| f.off));
+    for &o in &pos16 {
+        // the checksum field itself is covered by the byte family (recomputing would undo it)
+        if o + 2 > n || (19..24).contains(&o) {
+            continue;
+        }
+        let v = rd16(seed, o);
+        let (sl, _) = sec_len_at(o);
+        let mut vals: Vec<u16> = vec![0, 1, 0x7fff, 0x8000, 0xffff, v.wrapping_add(1), v.wrapping_sub(1)];
+        if sl <= 0xffff {
+            vals.push(sl as u16);
+            vals.push((sl as u16).wrapping_add(1));
+        }
+        for x in vals {
+            g.push("u16", None, true, o, &[(o, &x.to_le_bytes())]);
+        }
+    }
+    // F3 u32: every 4-aligned offset + every 4-byte field of the layout
+    let mut pos32: BTreeSet<usize> = (0..n.saturating_sub(3)).step_by(4).collect();
+    pos32.extend(lay.flds.iter().filter(|f| f.len == 4).map(|f| f.off));
+    for &o in &pos32 {
+        if o + 4 > n || (17..24).contains(&o) {
+            continue;
+        }
+        let v = rd32(seed, o);
+        let (sl, rem) = sec_len_at(o);
+        let vals: [u32; 16] = [
+            0, 1, 0x7fff, 0x8000, 0xffff, 0x7fff_ffff, 0x8000_0000, 0xffff_ffff,
+            v.wrapping_add(1), v.wrapping_sub(1), sl as u32, sl as u32 + 1, n as u32, n as u32 + 1, rem as u32, rem as u32 + 1,
+        ];
+        for x in vals {
+            g.push("u32", None, true, o, &[(o, &x.to_le_bytes())]);
+        }
+    }
+    // F4 i64 fields
+    for f in lay.flds.iter().filter(|f| f.len == 8) {
+        let o = f.off;
+        let v = i64::from_le_bytes(seed[o..o + 8].try_into().unwrap());
+        for x in [0i64, 1, -1, i64::MIN, i64::MAX, 0x7fff_ffff, 0x8000_0000, 0xffff_ffff, v.wrapping_add(1), v.wrapping_sub(1), i64::MIN + 1, i64::MAX - 1] {
+            g.push("i64", None, true, o, &[(o, &x.to_le_bytes())]);
+        }
+    }
+    // F5 tags: every value of the tag's domain plus the first invalid one; opcodes: every defined opcode + 3 undefined
+    for f in lay.flds.iter() {
+        if let Role::Tag(d) = f.role {
+            if f.len != 1 {
+                continue;
+            }
+            if d == 0 {
+                for &op in OPCODES {
+                    g.push("tag", None, true, f.off, &[(f.off, &[op])]);
+                }
+            } else {
+                for v in 0..=d {
+                    g.push("tag", None, true, f.off, &[(f.off, &[v])]);
+                }
+            }
+        }
+    }
+    // F6 every truncation (raw, CRC recomputed)
+    for l in 0..n {
+        g.push("trunc", Some(l), true, l, &[]);
+    }
+    // F6b every truncation with the section table repaired so that framing passes: sections cut by
+    // the new end are shortened, sections entirely beyond it become empty sections at offset 24
+    let table_end = lay.secs.iter().map(|s| s.entry_off + 12).max().unwrap_or(24);
+    for l in table_end..n {
+        let mut owned: Vec<(usize, [u8; 8])> = Vec::new();
+        for s in &lay.secs {
+            if s.off + s.len <= l {
+                continue;
+            }
+            let (no, nl) = if s.off >= l { (24usize, 0usize) } else { (s.off, l - s.off) };
+            let mut d = [0u8; 8];
+            d[..4].copy_from_slice(&(no as u32).to_le_bytes());
+            d[4..].copy_from_slice(&(nl as u32).to_le_bytes());
+            owned.push((s.entry_off + 4, d));
+        }
+        let edits: Vec<(usize, &[u8])> = owned.iter().map(|(o, d)| (*o, &d[..])).collect();
+        g.push("trunc-fixup", Some(l), true, l, &edits);
+    }
+    // F7 every section shortened to every length (payload bytes stay in the file as a gap)
+    for s in &lay.secs {
+        for l in 0..s.len {
+            g.push("seclen", None, true, s.off + l, &[(s.entry_off + 8, &(l as u32).to_le_bytes())]);
+        }
+    }
+    // F8 section table: swaps, copies, id retagging, aliasing, extension into the neighbour, table relocation
+    let k = lay.secs.len();
+    for i in 0..k {
+        let ei = lay.secs[i].entry_off;
+        for j in 0..k {
+            if i == j {
+                continue;
+            }
+            let ej = lay.secs[j].entry_off;
+            if i < j {
+                let a = seed[ei..ei + 12].to_vec();
+                let b = seed[ej..ej + 12].to_vec();
+                g.push("table", None, true, ei, &[(ei, &b), (ej, &a)]);
+            }
+            // copy entry j over entry i (duplicate)
+            let b = seed[ej..ej + 12].to_vec();
+            g.push("table", None, true, ei, &[(ei, &b)]);
+            // entry i aliases the payload of j (empty / own length / j's length)
+            let oj = (lay.secs[j].off as u32).to_le_bytes();
+            for l in [0u32, lay.secs[i].len as u32, lay.secs[j].len as u32] {
+                g.push("table", None, true, ei + 4, &[(ei + 4, &oj), (ei + 8, &l.to_le_bytes())]);
+            }
+        }
+        for id in (0u16..=13).chain([0x8000, 0xffff]) {
+            g.push("table", None, true, ei, &[(ei, &id.to_le_bytes())]);
+        }
+        // extend into the next section in file order
+        if let Some(nx) = lay.secs.iter().filter(|s| s.off > lay.secs[i].off).min_by_key(|s| s.off) {
+            let l = (nx.off + nx.len - lay.secs[i].off) as u32;
+            g.push("table", None, true, ei + 8, &[(ei + 8, &l.to_le_bytes())]);
+            let l = (nx.off + 4 - lay.secs[i].off) as u32;
+            g.push("table", None, true, ei + 8, &[(ei + 8, &l.to_le_bytes())]);
+        }
+        // section table relocated onto this section's payload
+        g.push("table", None, true, 16, &[(16, &(lay.secs[i].off as u32).to_le_bytes())]);
+    }
+    // F9 type references: every type-id field of the type table and of the const pool <- every
+    // type index (incl. itself); self/2-cycle aliases combined with a constant of that type
+    let t = lay.type_entries.len();
+    let entry_of = |off: usize| lay.type_entries.iter().position(|(s, e)| *s <= off && off < *e);
+    let consts: Vec<usize> = lay.const_type_fields.clone();
+    for f in lay.flds.iter().filter(|f| f.role == Role::TypeRef) {
+        for j in 0..t {
+            g.push("typeref", None, true, f.off, &[(f.off, &(j as u32).to_le_bytes())]);
+        }
+        if f.sec == "TYPE_TABLE" {
+            if let Some(i) = entry_of(f.off) {
+                for &c in consts.iter().take(3) {
+                    g.push("typeref", None, true, f.off, &[(f.off, &(i as u32).to_le_bytes()), (c, &(i as u32).to_le_bytes())]);
+                }
+            }
+        }
+    }
+    // entries whose payload is exactly 4 bytes can be re-tagged ALIAS / REFERENCE in place
+    let small: Vec<usize> = (0..t).filter(|&i| lay.type_entries[i].1 - lay.type_entries[i].0 == 12).collect();
+    for &i in &small {
+        let (s, _) = lay.type_entries[i];
+        for kind in [4u8, 6u8] {
+            for &c in consts.iter().take(3) {
+                // self cycle
+                g.push("typeref", None, true, s, &[(s, &[kind]), (s + 8, &(i as u32).to_le_bytes()), (c, &(i as u32).to_le_bytes())]);
+                // 2-cycles
+                for &j in small.iter().filter(|&&j| j != i) {
+                    let (sj, _) = lay.type_entries[j];
+                    g.push(
+                        "typeref",
+                        None,
+                        true,
+                        s,
+                        &[(s, &[kind]), (s + 8, &(j as u32).to_le_bytes()), (sj, &[4u8]), (sj + 8, &(i as u32).to_le_bytes()), (c, &(i as u32).to_le_bytes())],
+                    );
+                }
+            }
+        }
+    }
+    // F10 header product (boundary values of every header field, body unchanged)
+    if header_product && n >= 24 {
+        let nsec = lay.secs.len() as u16;
+        for major in [0u16, 1, 2, 0xffff] {
+            for minor in [0u16, 1, 2, 0xffff] {
+                for flags in [0u32, 1, 2, 0xffff_ffff] {
+                    for hs in [0u16, 23, 24, 25, 0xffff] {
+                        for cnt in [0u16, 1, nsec, nsec.wrapping_add(1), 0xffff] {
+                            for toff in [0u32, 20, 24, 28, n as u32, 0xffff_fffc, 0xffff_ffff] {
+                                g.push(
+                                    "header",
+                                    None,
+                                    true,
+                                    4,
+                                    &[
+                                        (4, &major.to_le_bytes()),
+                                        (6, &minor.to_le_bytes()),
+                                        (8, &flags.to_le_bytes()),
+                                        (12, &hs.to_le_bytes()),
+                                        (14, &cnt.to_le_bytes()),
+                                        (16, &toff.to_le_bytes()),
+                                    ],
+                                );
+                            }
+                        }
+                    }
+                }
+            }
+        }
+    }
+    g.set
+}
+
+// ------------------------------------------------------------------------------------------------
+// the per-mutant pipeline (runs inside an iso worker process)
+// ------------------------------------------------------------------------------------------------
+
+const STAGES: &[&str] = &["start", "decode", "validate", "metadata", "encode", "build-runtime", "apply", "hot-reload"];
+
+static PANIC_LOC: std::sync::Mutex<String> = std::sync::Mutex::new(String::new());
+
+fn install_hook() {
+    static ONCE: std::sync::Once = std::sync::Once::new();
+    ONCE.call_once(|| {
+        std::panic::set_hook(Box::new(|info| {
+            let loc = info.location().map(|l| format!("{}:{}", l.file(), l.line())).unwrap_or_default();
+            if let Ok(mut g) = PANIC_LOC.lock() {
+                *g = loc;
+            }
+        }));
+    });
+}
+
+fn last_panic_loc() -> String {
+    PANIC_LOC.lock().map(|g| g.clone()).unwrap_or_default()
+}
+
+struct WorkCtx {
+    session: CompileSession,
+    /// runtime used for containers that do not validate (apply returns before touching it)
+    scratch: Option<trust_runtime::Runtime>,
+    /// runtime that has only ever received metadata equal to the seed's
+    same_meta: Option<trust_runtime::Runtime>,
+    seed_meta: Option<String>,
+    runtime_builds: u64,
+}
+
+impl WorkCtx {
+    fn new(prog: Prog, seed: Option<&[u8]>) -> WorkCtx {
+        let session = prog.session();
+        let seed_meta = seed.and_then(|b| {
+            catch(|| BytecodeModule::decode(b).ok().and_then(|m| m.metadata().ok()).map(|m| format!("{m:?}"))).ok().flatten()
+        });
+        WorkCtx { session, scratch: None, same_meta: None, seed_meta, runtime_builds: 0 }
+    }
+    fn build(&mut self) -> Option<trust_runtime::Runtime> {
+        self.runtime_builds += 1;
+        let s = &self.session;
+        match catch(|| s.build_runtime()) {
+            Ok(Ok(r)) => Some(r),
+            _ => None,
+        }
+    }
+}
+
+#[derive(Default)]
+struct PipeOut {
+    outcome: String,
+    nontrivial: bool,
+    validated: bool,
+    /// (clause, stage, panic message, panic location)
+    viol: Vec<(String, String, String, String)>,
+    machinery: Option<String>,
+    /// panicked on the re-used runtime but not on a fresh one
+    diverged: bool,
+}
+
+fn err_name<E: std::fmt::Debug>(e: &E) -> String {
+    variant_of(&format!("{e:?}"))
+}
+
+/// apply + hot reload continuation (scheduler.rs `ReloadBytecode`: apply -> warm restart ->
+/// load retain store -> metadata snapshot). Ok(outcome) | Err((stage, panic message))
+fn apply_on(rt: &mut trust_runtime::Runtime, bytes: &[u8], mark: &mut dyn FnMut(u8)) -> Result<String, (usize, String)> {
+    mark(6);
+    let r = catch(|| rt.apply_bytecode_bytes(bytes, None)).map_err(|m| (6usize, m))?;
+    match r {
+        Err(e) => Ok(format!("A:{}", err_name(&e))),
+        Ok(()) => {
+            mark(7);
+            let r = catch(|| {
+                let a = rt.restart(trust_runtime::RestartMode::Warm).is_ok();
+                let b = rt.load_retain_store().is_ok();
+                let _ = rt.metadata_snapshot();
+                (a, b)
+            })
+            .map_err(|m| (7usize, m))?;
+            Ok(if r.0 && r.1 { "A:ok".to_string() } else { "A:ok/reload-err".to_string() })
+        }
+    }
+}
+
+fn pipeline(bytes: &[u8], ctx: &mut WorkCtx, mark: &mut dyn FnMut(u8)) -> PipeOut {
+    let mut out = PipeOut::default();
+    let pv = |stage: usize, m: String| ("panic".to_string(), STAGES[stage].to_string(), m, last_panic_loc());
+    mark(1);
+    let module = match catch(|| BytecodeModule::decode(bytes)) {
+        Err(m) => {
+            out.viol.push(pv(1, m));
+            out.outcome = "D:panic".into();
+            None
+        }
+        Ok(Err(e)) => {
+            let n = err_name(&e);
+            out.nontrivial = bytes.len() >= 24 && (n == "UnexpectedEof" || n.starts_with("InvalidSection:"));
+            out.outcome = format!("D:{n}");
+            None
+        }
+        Ok(Ok(m)) => {
+            out.nontrivial = true;
+            Some(m)
+        }
+    };
+    let mut meta_dbg: Option<String> = None;
+    if let Some(m) = &module {
+        mark(2);
+        match catch(|| m.validate()) {
+            Err(p) => {
+                out.viol.push(pv(2, p));
+                out.outcome = "V:panic".into();
+            }
+            Ok(Err(e)) => out.outcome = format!("V:{}", err_name(&e)),
+            Ok(Ok(())) => out.validated = true,
+        }
+        mark(3);
+        match catch(|| m.metadata()) {
+            Err(p) => out.viol.push(pv(3, p)),
+            Ok(Ok(md)) => meta_dbg = Some(format!("{md:?}")),
+            Ok(Err(_)) => {}
+        }
+        // informational only (not an oracle clause): re-encoding a decoded mutant
+        mark(4);
+        let _ = catch(|| m.encode());
+    }
+    if out.validated {
+        let same = meta_dbg.is_some() && meta_dbg == ctx.seed_meta;
+        if same {
+            if ctx.same_meta.is_none() {
+                mark(5);
+                ctx.same_meta = ctx.build();
+            }
+            let Some(rt) = ctx.same_meta.as_mut() else {
+                out.machinery = Some("cannot build the runtime of the seed program".into());
+                return out;
+            };
+            match apply_on(rt, bytes, mark) {
+                Ok(o) => {
+                    out.outcome = o;
+                    return out;
+                }
+                Err(_) => {
+                    // decide on a fresh runtime below
+                    ctx.same_meta = None;
+                }
+            }
+        }
+        mark(5);
+        let Some(mut rt) = ctx.build() else {
+            out.machinery = Some("cannot build the runtime of the seed program".into());
+            return out;
+        };
+        match apply_on(&mut rt, bytes, mark) {
+            Ok(o) => {
+                if same {
+                    out.diverged = true;
+                }
+                out.outcome = o;
+            }
+            Err((stage, m)) => {
+                out.viol.push(pv(stage, m));
+                out.outcome = "A:panic".into();
+            }
+        }
+    } else if out.viol.is_empty() {
+        // apply_bytecode_bytes must also terminate on containers that do not decode / validate
+        // (skipped when decode/validate already panicked: apply runs the same two functions first)
+        if ctx.scratch.is_none() {
+            mark(5);
+            ctx.scratch = ctx.build();
+        }
+        let Some(rt) = ctx.scratch.as_mut() else {
+            out.machinery = Some("cannot build the runtime of the seed program".into());
+            return out;
+        };
+        mark(6);
+        match catch(|| rt.apply_bytecode_bytes(bytes, None)) {
+            Err(m) => {
+                out.viol.push(pv(6, m));
+                ctx.scratch = None;
+            }
+            Ok(Ok(())) => out.outcome.push_str("+applied"),
+            Ok(Err(_)) => {}
+        }
+    }
+    out
+}
+
+// ---- fork server: the iso worker forks one child per run of mutants; the child streams a
+// progress record before every stage and a result record after every mutant, so that a death
+// (abort / stack overflow / kill after timeout) is attributed to exactly one mutant and stage,
+// nothing before it is lost, and the next child starts from the pristine parent image. A death
+// that did not happen on the first mutant of a child is re-tried in a fresh child first.
+
+fn fd_write_all(fd: i32, mut buf: &[u8]) {
+    while !buf.is_empty() {
+        // SAFETY: plain write(2) on a pipe fd owned by this process
+        let n = unsafe { libc::write(fd, buf.as_ptr() as *const libc::c_void, buf.len()) };
+        if n <= 0 {
+            return;
+        }
+        buf = &buf[n as usize..];
+    }
+}
+
+enum MutRes {
+    Done(Value),
+    /// (stage, "died"|"timeout", message)
+    Death(u8, &'static str, String),
+}
+
+struct Served {
+    res: Vec<MutRes>,
+    retried: u64,
+    forks: u64,
+}
+
+/// Runs `n` inputs (`input(k)` = bytes of mutant k) in forked children of this process.
+fn serve(ctx: &mut WorkCtx, n: usize, input: &dyn Fn(usize) -> Vec<u8>, limit_ms: i32) -> Result<Served, String> {
+    let mut out = Served { res: Vec::with_capacity(n), retried: 0, forks: 0 };
+    let mut i = 0usize;
+    while i < n {
+        let start = i;
+        let mut rp = [0i32; 2];
+        let mut ep = [0i32; 2];
+        // SAFETY: libc pipe/fork/dup2/close/poll/read/waitpid/kill used in the documented way
+        unsafe {
+            if libc::pipe(rp.as_mut_ptr()) != 0 || libc::pipe(ep.as_mut_ptr()) != 0 {
+                return Err("pipe() failed".into());
+            }
+        }
+        out.forks += 1;
+        let pid = unsafe { libc::fork() };
+        if pid < 0 {
+            return Err("fork() failed".into());
+        }
+        if pid == 0 {
+            // ---- child ----
+            unsafe {
+                libc::close(rp[0]);
+                libc::close(ep[0]);
+                libc::dup2(ep[1], 2);
+                libc::close(ep[1]);
+            }
+            let w = rp[1];
+            for k in start..n {
+                let bytes = input(k);
+                let k32 = k as u32;
+                let o = pipeline(&bytes, ctx, &mut |s| {
+                    let mut rec = [0u8; 6];
+                    rec[0] = b'S';
+                    rec[1..5].copy_from_slice(&k32.to_le_bytes());
+                    rec[5] = s;
+                    fd_write_all(w, &rec);
+                });
+                let v = json!({"o": o.outcome, "n": o.nontrivial, "v": o.validated, "m": o.machinery, "d": o.diverged,
+                               "p": o.viol.iter().map(|(c, s, d, l)| json!([c, s, d, l])).collect::<Vec<_>>()});
+                let body = v.to_string().into_bytes();
+                let mut rec = Vec::with_capacity(body.len() + 9);
+                rec.push(b'R');
+                rec.extend_from_slice(&k32.to_le_bytes());
+                rec.extend_from_slice(&(body.len() as u32).to_le_bytes());
+                rec.extend_from_slice(&body);
+                fd_write_all(w, &rec);
+            }
+            unsafe { libc::_exit(0) }
+        }
+        // ---- parent ----
+        unsafe {
+            libc::close(rp[1]);
+            libc::close(ep[1]);
+        }
+        let r = rp[0];
+        let mut buf: Vec<u8> = Vec::new();
+        let mut last: Option<(usize, u8)> = None;
+        let mut timed_out = false;
+        loop {
+            let mut pfd = libc::pollfd { fd: r, events: libc::POLLIN, revents: 0 };
+            let pr = unsafe { libc::poll(&mut pfd, 1, limit_ms) };
+            if pr == 0 {
+                timed_out = true;
+                unsafe {
+                    libc::kill(pid, libc::SIGKILL);
+                }
+                break;
+            }
+            if pr < 0 {
+                continue;
+            }
+            let mut tmp = [0u8; 65536];
+            let nr = unsafe { libc::read(r, tmp.as_mut_ptr() as *mut libc::c_void, tmp.len()) };
+            if nr <= 0 {
+                break;
+            }
+            buf.extend_from_slice(&tmp[..nr as usize]);
+            // parse complete records
+            let mut pos = 0usize;
+            loop {
+                if pos >= buf.len() {
+                    break;
+                }
+                match buf[pos] {
+                    b'S' => {
+                        if pos + 6 > buf.len() {
+                            break;
+                        }
+                        last = Some((rd32(&buf, pos + 1) as usize, buf[pos + 5]));
+                        pos += 6;
+                    }
+                    b'R' => {
+                        if pos + 9 > buf.len() {
+                            break;
+                        }
+                        let k = rd32(&buf, pos + 1) as usize;
+                        let l = rd32(&buf, pos + 5) as usize;
+                        if pos + 9 + l > buf.len() {
+                            break;
+                        }
+                        let v: Value = serde_json::from_slice(&buf[pos + 9..pos + 9 + l]).map_err(|e| format!("bad child record: {e}"))?;
+                        if k != out.res.len() {
+                            return Err(format!("child result for mutant {k}, expected {}", out.res.len()));
+                        }
+                        out.res.push(MutRes::Done(v));
+                        pos += 9 + l;
+                    }
+                    x => return Err(format!("bad child record tag {x}")),
+                }
+            }
+            buf.drain(..pos);
+        }
+        let mut status = 0i32;
+        unsafe {
+            libc::waitpid(pid, &mut status, 0);
+            libc::close(r);
+        }
+        // child's stderr (abort message)
+        let mut emsg = Vec::new();
+        loop {
+            let mut tmp = [0u8; 4096];
+            let nr = unsafe { libc::read(ep[0], tmp.as_mut_ptr() as *mut libc::c_void, tmp.len()) };
+            if nr <= 0 {
+                break;
+            }
+            emsg.extend_from_slice(&tmp[..nr as usize]);
+            if emsg.len() > 1 << 16 {
+                break;
+            }
+        }
+        unsafe {
+            libc::close(ep[0]);
+        }
+        i = out.res.len();
+        if i >= n && !timed_out && libc::WIFEXITED(status) && libc::WEXITSTATUS(status) == 0 {
+            break;
+        }
+        if i >= n {
+            break;
+        }
+        // the child died (or was killed) while working on mutant i
+        let (k, stage) = match last {
+            Some((k, s)) if k == i => (k, s),
+            _ => (i, 0u8),
+        };
+        if k > start {
+            // not the first mutant of that child: decide in a fresh child
+            out.retried += 1;
+            continue;
+        }
+        let text = String::from_utf8_lossy(&emsg);
+        let tail: Vec<&str> = text.lines().filter(|l| !l.trim().is_empty()).collect();
+        let tail = tail.iter().rev().take(3).rev().cloned().collect::<Vec<_>>().join(" | ");
+        let desc = if libc::WIFSIGNALED(status) { format!("signal {}", libc::WTERMSIG(status)) } else { format!("exit status {}", libc::WEXITSTATUS(status)) };
+        out.res.push(MutRes::Death(stage, if timed_out { "timeout" } else { "died" }, format!("{desc}: {tail}")));
+        i += 1;
+    }
+    Ok(out)
+}
+
+/// iso worker. Two request forms:
+///  {"mode":"batch","seed_file":..,"prog_file":..,"muts":"<text> <text> ..."}
+///  {"mode":"one","bytes_hex":..,"prog":{..}}
+/// Reply: {"hist":{family|outcome: n}, "viol":[[k,clause,stage,msg,loc]..], "deaths":[[k,stage,kind,msg]..], ...}
+pub fn worker(case: &Value) -> Value {
+    install_hook();
+    let limit_ms = case["limit_ms"].as_i64().unwrap_or(60_000) as i32;
+    let (mut ctx, inputs): (WorkCtx, Vec<(u8, Vec<u8>)>) = match case["mode"].as_str() {
+        Some("batch") => {
+            let seed = match std::fs::read(case["seed_file"].as_str().unwrap_or("")) {
+                Ok(b) => b,
+                Err(e) => return json!({"machinery": format!("cannot read seed file: {e}")}),
+            };
+            let prog = match std::fs::read_to_string(case["prog_file"].as_str().unwrap_or("")).ok().and_then(|t| serde_json::from_str::<Value>(&t).ok()) {
+                Some(v) => Prog::from_json(&v),
+                None => return json!({"machinery": "cannot read prog file"}),
+            };
+            let mut inputs = Vec::new();
+            for t in case["muts"].as_str().unwrap_or("").split(' ').filter(|t| !t.is_empty()) {
+                let Some((fam, trunc, fix, edits)) = parse_mut(t) else {
+                    return json!({"machinery": format!("bad mutant text {t}")});
+                };
+                inputs.push((fam, apply_mut(&seed, trunc, fix, edits.iter().map(|(o, d)| (*o, &d[..])))));
+            }
+            (WorkCtx::new(prog, Some(&seed)), inputs)
+        }
+        Some("one") => {
+            let bytes = unhex(case["bytes_hex"].as_str().unwrap_or(""));
+            (WorkCtx::new(Prog::from_json(&case["prog"]), None), vec![(0u8, bytes)])
+        }
+        _ => return json!({"machinery": "unknown worker mode"}),
+    };
+    // runtimes of the (valid) seed program are built once here; children inherit pristine copies
+    ctx.scratch = ctx.build();
+    ctx.same_meta = if ctx.seed_meta.is_some() { ctx.build() } else { None };
+    if ctx.scratch.is_none() {
+        return json!({"machinery": "cannot build the runtime of the seed program"});
+    }
+    let served = match serve(&mut ctx, inputs.len(), &|k| inputs[k].1.clone(), limit_ms) {
+        Ok(s) => s,
+        Err(e) => return json!({"machinery": e}),
+    };
+    let mut hist: BTreeMap<String, u64> = BTreeMap::new();
+    let mut viol: Vec<Value> = Vec::new();
+    let mut deaths: Vec<Value> = Vec::new();
+    let (mut nontrivial, mut validated, mut diverged) = (0u64, 0u64, 0u64);
+    let mut machinery: Option<String> = None;
+    for (k, r) in served.res.iter().enumerate() {
+        let fam = FAMILIES.get(inputs[k].0 as usize).copied().unwrap_or("?");
+        match r {
+            MutRes::Done(v) => {
+                if let Some(m) = v["m"].as_str() {
+                    machinery = Some(m.to_string());
+                }
+                nontrivial += v["n"].as_bool().unwrap_or(false) as u64;
+                validated += v["v"].as_bool().unwrap_or(false) as u64;
+                diverged += v["d"].as_bool().unwrap_or(false) as u64;
+                *hist.entry(format!("{fam}|{}", v["o"].as_str().unwrap_or("?"))).or_insert(0) += 1;
+                for p in v["p"].as_array().cloned().unwrap_or_default() {
+                    viol.push(json!([k, p[0], p[1], p[2], p[3]]));
+                }
+            }
+            MutRes::Death(stage, kind, msg) => {
+                *hist.entry(format!("{fam}|X:{kind}")).or_insert(0) += 1;
+                deaths.push(json!([k, stage, kind, msg]));
+            }
+        }
+    }
+    json!({"hist": hist, "viol": viol, "deaths": deaths, "nontrivial": nontrivial, "validated": validated,
+           "shared_divergence": diverged, "done": served.res.len(), "retried": served.retried, "forks": served.forks, "machinery": machinery})
+}
+
+/// failure kind of a dead worker from its exit status + stderr tail
+fn death_kind(msg: &str) -> (&'static str, String) {
+    if let Some(p) = msg.find("memory allocation of ") {
+        let n: String = msg[p + 21..].chars().take_while(|c| c.is_ascii_digit()).collect();
+        return ("alloc", format!("allocation of {n} bytes failed under RLIMIT_AS={} MiB", RLIMIT_AS >> 20));
+    }
+    if msg.contains("overflowed its stack") || msg.contains("stack overflow") {
+        return ("stack-overflow", format!("stack overflow on a {} MiB stack", WORKER_STACK >> 20));
+    }
+    if msg.contains("capacity overflow") {
+        return ("alloc", "capacity overflow".into());
+    }
+    ("other", clip(msg, 160))
+}
+
+fn uses_family_in_sig(family: &str) -> bool {
+    !matches!(family, "byte" | "u16" | "u32" | "i64" | "tag")
+}
+
+fn mutant_sig(kind: &str, sub: &str, stage: &str, family: &str, sec: &str, field: &str, msg: Option<&str>) -> String {
+    let m = if uses_family_in_sig(family) { format!(":mut={family}") } else { String::new() };
+    let base = if sub.is_empty() {
+        format!("C11/{kind}/stage={stage}{m}:section={sec}:field={field}")
+    } else {
+        format!("C11/{kind}/{sub}:stage={stage}{m}:section={sec}:field={field}")
+    };
+    match msg {
+        Some(x) => format!("{base}/{}", norm_msg(x)),
+        None => base,
+    }
+}
+
+// ------------------------------------------------------------------------------------------------
+// engine
+// ------------------------------------------------------------------------------------------------
+
+pub struct Seed {
+    pub name: String,
+    pub prog: Prog,
+    pub bytes: Vec<u8>,
+    pub lay: Layout,
+    pub set: MutSet,
+}
+
+fn rt_violation(p: &Prog, clause: &str, feature: &str, detail: &str) -> Violation {
+    let sig = if clause == "panic" {
+        format!("C11/panic/roundtrip:{feature}/{}", norm_msg(detail))
+    } else {
+        format!("C11/roundtrip/{clause}/{feature}")
+    };
+    Violation {
+        signature: sig,
+        what: format!("program {} ({}): {}", p.name, p.origin, detail),
+        case: json!({"kind": "roundtrip", "prog": p.to_json()}),
+    }
+}
+
+fn pool_cfg(procs: usize, per_case: Duration, deadline: Option<Instant>) -> iso::PoolCfg {
+    iso::PoolCfg { worker: "c11", procs, rlimit_as: RLIMIT_AS, per_case, deadline, env: vec![("RUST_BACKTRACE".to_string(), "0".to_string())], stack: WORKER_STACK }
+}
+
+/// Turns what was observed for one mutant into violations. `panics` = [clause, stage, msg, loc].
+#[allow(clippy::too_many_arguments)]
+fn mutant_violations(
+    panics: &[(String, String, String, String)],
+    death: Option<(&str, u8)>, // (iso message or "timeout", stage)
+    family: &str,
+    sec: &str,
+    field: &str,
+    descr: &str,
+    seed_name: &str,
+    size: usize,
+    case: &Value,
+) -> Vec<Violation> {
+    let mut v = Vec::new();
+    for (_c, stage, msg, loc) in panics {
+        let note = if msg.contains("with overflow") { " (arithmetic overflow check: a panic in builds with overflow checks such as dev/test, silent wrap-around otherwise)" } else { "" };
+        v.push(Violation {
+            // a panic is identified by its site (source file of the panic location) and message; the
+            // mutated section (not the field) is kept as a coarse discriminator
+            signature: format!(
+                "C11/panic/stage={stage}:section={sec}/{}/{}",
+                loc.rsplit('/').next().unwrap_or("").split(':').next().unwrap_or(""),
+                norm_msg(msg)
+            ),
+            what: format!(
+                "{stage} panicked with '{}' at {loc}{note} on a {size}-byte mutant of the container of {seed_name} ({family}: {descr}; mutated field {sec}.{field}); expected Ok or Err",
+                clip(msg, 120)
+            ),
+            case: case.clone(),
+        });
+    }
+    if let Some((msg, stage)) = death {
+        let stage = STAGES.get(stage as usize).copied().unwrap_or("?");
+        if msg == "timeout" {
+            v.push(Violation {
+                signature: mutant_sig("timeout", "", stage, family, sec, field, None),
+                what: format!("{stage} did not finish within the per-case limit on a {size}-byte mutant of {seed_name} ({family}: {descr}; field {sec}.{field})"),
+                case: case.clone(),
+            });
+        } else {
+            let (kind, detail) = death_kind(msg);
+            // an allocation bomb reached through a field that is not itself a count/size (the decoder
+            // desynchronised and read other bytes as a count) is named per section, not per field
+            let sizing = case["sizing_field"].as_bool().unwrap_or(false);
+            let signature = if kind == "alloc" && !sizing {
+                format!("C11/abort/alloc:stage={stage}:section={sec}:field=desync")
+            } else {
+                mutant_sig("abort", kind, stage, family, sec, field, None)
+            };
+            v.push(Violation {
+                signature,
+                what: format!(
+                    "process aborted in {stage}: {detail}; input = {size}-byte mutant of the container of {seed_name} ({family}: {descr}; mutated field {sec}.{field}); expected Ok or Err with memory proportional to the input"
+                ),
+                case: case.clone(),
+            });
+        }
+    }
+    v
+}
+
+fn mutant_case(seed: &Seed, m: &Mutant) -> (Value, String, &'static str, &'static str, &'static str) {
+    let bytes = seed.set.apply(m, &seed.bytes);
+    let (sec, field) = seed.lay.label_at(m.at as usize);
+    let sizing = seed.lay.field_at(m.at as usize).map(|f| f.role == Role::Count || (f.sec == "RESOURCE_META" && f.name.ends_with("_size"))).unwrap_or(false);
+    let family = FAMILIES[m.family as usize];
+    let descr = seed.set.describe(m);
+    (
+        json!({"kind": "mutant", "seed": seed.name, "prog": seed.prog.to_json(), "family": family, "section": sec, "field": field, "sizing_field": sizing,
+               "mutation": descr, "bytes_hex": hex(&bytes)}),
+        descr,
+        family,
+        sec,
+        field,
+    )
+}
+
+pub fn check_case(case: &Value) -> Vec<Violation> {
+    match case["kind"].as_str() {
+        Some("roundtrip") => {
+            let p = Prog::from_json(&case["prog"]);
+            let p2 = p.clone();
+            match on_stack(64 << 20, move || roundtrip(&p2)) {
+                Ok(r) => r.bad.iter().map(|(c, f, d)| rt_violation(&p, c, f, d)).collect(),
+                Err(m) => vec![rt_violation(&p, "panic", "harness", &m)],
+            }
+        }
+        Some("mutant") => {
+            let req = json!({"mode": "one", "bytes_hex": case["bytes_hex"], "prog": case["prog"], "limit_ms": 120_000});
+            let cfg = pool_cfg(1, Duration::from_secs(600), None);
+            let outs = match iso::run_pool(&cfg, &[req]) {
+                Ok(o) => o,
+                Err(_) => return Vec::new(),
+            };
+            let family = case["family"].as_str().unwrap_or("?");
+            let sec = case["section"].as_str().unwrap_or("?");
+            let field = case["field"].as_str().unwrap_or("?");
+            let descr = case["mutation"].as_str().unwrap_or("");
+            let seed_name = case["seed"].as_str().unwrap_or("?");
+            let size = case["bytes_hex"].as_str().map(|s| s.len() / 2).unwrap_or(0);
+            match outs.into_iter().next().flatten() {
+                Some(iso::Outcome::Ok(v)) => {
+                    let (panics, deaths) = parse_reply(&v);
+                    let mut out = Vec::new();
+                    if let Some(p) = panics.get(&0) {
+                        out.extend(mutant_violations(p, None, family, sec, field, descr, seed_name, size, case));
+                    }
+                    if let Some((stage, kind, msg)) = deaths.get(&0) {
+                        let m = if kind == "timeout" { "timeout" } else { msg.as_str() };
+                        out.extend(mutant_violations(&[], Some((m, *stage)), family, sec, field, descr, seed_name, size, case));
+                    }
+                    out
+                }
+                _ => Vec::new(),
+            }
+        }
+        _ => Vec::new(),
+    }
+}
+
+struct Item {
+    seed: usize,
+    idxs: Vec<u32>,
+}
+
+type Panics = Vec<(String, String, String, String)>;
+
+/// (panics per local mutant index, deaths per local mutant index) of a worker reply
+fn parse_reply(v: &Value) -> (BTreeMap<usize, Panics>, BTreeMap<usize, (u8, String, String)>) {
+    let mut per: BTreeMap<usize, Panics> = BTreeMap::new();
+    for x in v["viol"].as_array().cloned().unwrap_or_default() {
+        let k = x[0].as_u64().unwrap_or(0) as usize;
+        let s = |i: usize| x[i].as_str().unwrap_or("").to_string();
+        per.entry(k).or_default().push((s(1), s(2), s(3), s(4)));
+    }
+    let mut deaths = BTreeMap::new();
+    for x in v["deaths"].as_array().cloned().unwrap_or_default() {
+        let k = x[0].as_u64().unwrap_or(0) as usize;
+        deaths.insert(k, (x[1].as_u64().unwrap_or(0) as u8, x[2].as_str().unwrap_or("died").to_string(), x[3].as_str().unwrap_or("").to_string()));
+    }
+    (per, deaths)
+}
+
+enum Fail {
+    Panic(Vec<(String, String, String, String)>),
+    Death(String, u8),
+}
+
+pub fn run(ctx: &Ctx) -> EngineResult {
+    quiet_panics();
+    let mut rep = Report::new("exploration");
+    let deadline = Instant::now() + Duration::from_secs(ctx.tier.pick(40, 840));
+    let mut exhaustive = true;
+    let big_stack = 64 << 20;
+
+    // ---------------- corpus ----------------
+    let files = crate::corpus::st_files(&ctx.repo_dir);
+    if files.len() < 10 {
+        return machinery(format!("only {} .st corpus files found under {:?}", files.len(), ctx.repo_dir));
+    }
+    let mut progs: Vec<Prog> = Vec::new();
+    for (n, t) in generated_programs() {
+        progs.push(Prog { name: n.to_string(), files: vec![(format!("{n}.st"), t)], origin: "gen" });
+    }
+    let n_gen = progs.len();
+    for (p, t) in &files {
+        progs.push(Prog { name: p.clone(), files: vec![(p.clone(), t.clone())], origin: "file" });
+    }
+    let mut by_dir: BTreeMap<String, Vec<(String, String)>> = BTreeMap::new();
+    for (p, t) in &files {
+        let dir = std::path::Path::new(p).parent().map(|d| d.display().to_string()).unwrap_or_default();
+        by_dir.entry(dir).or_default().push((p.clone(), t.clone()));
+    }
+    for (d, fs) in by_dir {
+        if fs.len() >= 2 {
+            progs.push(Prog { name: format!("project:{d}"), files: fs, origin: "project" });
+        }
+    }
+    let res = par_map(&progs, ctx.threads, big_stack, Some(deadline), |_, p| roundtrip(p));
+    let mut evaluations = 0u64;
+    let mut rt_cases = 0u64;
+    let mut rt_by_origin: BTreeMap<&str, u64> = BTreeMap::new();
+    let mut not_case: BTreeMap<String, u64> = BTreeMap::new();
+    let mut sec_seen: BTreeSet<u16> = BTreeSet::new();
+    let mut kinds_seen: BTreeSet<u8> = BTreeSet::new();
+    let mut apply_ok = 0u64;
+    let mut distinct_containers: HashSet<u64> = HashSet::new();
+    let mut gen_bytes: Vec<Option<Vec<u8>>> = vec![None; n_gen];
+    let mut gen_rejected: Vec<String> = Vec::new();
+    let mut corpus_bytes: Vec<(usize, Vec<u8>)> = Vec::new();
+    for (i, (p, r)) in progs.iter().zip(res).enumerate() {
+        let Some(r) = r else {
+            exhaustive = false;
+            continue;
+        };
+        if let Some(why) = &r.not_a_case {
+            let k: String = why.split(':').next().unwrap_or("").to_string();
+            *not_case.entry(k).or_insert(0) += 1;
+            if p.origin == "gen" {
+                gen_rejected.push(format!("{}: {why}", p.name));
+            }
+            continue;
+        }
+        rt_cases += 1;
+        evaluations += 1;
+        *rt_by_origin.entry(p.origin).or_insert(0) += 1;
+        sec_seen.extend(r.section_ids.iter().copied());
+        kinds_seen.extend(r.type_kinds.iter().copied());
+        apply_ok += r.apply_ok as u64;
+        distinct_containers.insert(fnv(&r.bytes));
+        for (c, f, d) in &r.bad {
+            rep.violation(rt_violation(p, c, f, d));
+        }
+        if i < n_gen && r.valid_container {
+            gen_bytes[i] = Some(r.bytes);
+        } else if r.valid_container && r.bytes.len() < 16_000 {
+            corpus_bytes.push((i, r.bytes));
+        }
+    }
+    if !gen_rejected.is_empty() {
+        return machinery(format!("generated programs not accepted by the compiler: {}", gen_rejected.join(" || ")));
+    }
+    if !exhaustive {
+        rep.cap("round trip: wall cap reached before every corpus program was compiled");
+    }
+    eprintln!("[C11] round trip done at {:.1}s: {} cases", ctx.elapsed(), rt_cases);
+    if rt_by_origin.get("file").copied().unwrap_or(0) < 10 {
+        return machinery(format!("only {:?} corpus files compile on their own: round-trip family vacuous", rt_by_origin.get("file")));
+    }
+    for id in 1u16..=12 {
+        if !sec_seen.contains(&id) && rep.violations.is_empty() {
+            return machinery(format!("no corpus program emits section {}", section_name(id)));
+        }
+    }
+    rep.set("roundtrip_programs", rt_cases);
+    rep.set("roundtrip_by_origin", json!(rt_by_origin));
+    rep.set("roundtrip_distinct_containers", distinct_containers.len() as u64);
+    rep.set("corpus_files", files.len() as u64);
+    rep.set("not_a_case", json!(not_case));
+    rep.set("emitted_apply_ok", apply_ok);
+    rep.set("type_kinds_emitted", json!(kinds_seen.iter().collect::<Vec<_>>()));
+    rep.sample(json!({"family": "roundtrip", "program": progs[1].name, "text": clip(&progs[1].files[0].1, 80)}));
+
+    // ---------------- seeds ----------------
+    let quick_seeds: &[&str] = &[
+        "g00_empty", "g13_alias_subrange", "g14_union_ref", "g20_interface", "g21_class_inherit",
+        "g26_config_fb_task", "g27_var_config_at", "g29_globals_retain", "g31_global_aggregates", "g32_control_flow",
+    ];
+    let mut seed_inputs: Vec<(String, Prog, Vec<u8>)> = Vec::new();
+    for i in 0..n_gen {
+        let Some(b) = &gen_bytes[i] else { continue };
+        if ctx.tier == Tier::Quick && !quick_seeds.contains(&progs[i].name.as_str()) {
+            continue;
+        }
+        seed_inputs.push((progs[i].name.clone(), progs[i].clone(), b.clone()));
+    }
+    // version 1.0 re-encodings (no CRC, no type offsets, no string padding, no parameter defaults)
+    let v10_of: &[&str] = ctx.tier.pick(&["g13_alias_subrange"][..], &["g00_empty", "g13_alias_subrange", "g16_function", "g20_interface", "g26_config_fb_task", "g29_globals_retain"][..]);
+    let mut v10_skipped = 0u64;
+    for name in v10_of {
+        let Some(i) = progs.iter().position(|p| p.name == *name) else { continue };
+        let made = catch(|| {
+            let mut m = progs[i].session().build_bytecode_module().ok()?;
+            m.version.minor = 0;
+            m.flags = 0;
+            if let Some(SectionData::TypeTable(t)) = m.section_mut(SectionId::TypeTable) {
+                t.offsets.clear();
+            }
+            let b = m.encode().ok()?;
+            let d = BytecodeModule::decode(&b).ok()?;
+            d.validate().ok()?;
+            Some(b)
+        });
+        match made {
+            Ok(Some(b)) => seed_inputs.push((format!("{name}@v1.0"), progs[i].clone(), b)),
+            _ => v10_skipped += 1,
+        }
+    }
+    // thorough: distinct containers compiled from repository files / projects
+    if ctx.tier == Tier::Thorough {
+        let mut extra: Vec<(String, Prog, Vec<u8>)> = corpus_bytes.iter().map(|(i, b)| (progs[*i].name.clone(), progs[*i].clone(), b.clone())).collect();
+        extra.sort_by_key(|s| (s.2.len(), s.0.clone()));
+        extra.dedup_by_key(|s| fnv(&s.2));
+        // 25 containers evenly spaced over the size-sorted list (smallest .. largest below 16 KB)
+        let n = extra.len();
+        let picks: BTreeSet<usize> = (0..25).map(|k| if n <= 1 { 0 } else { k * (n - 1) / 24 }).collect();
+        rep.set("corpus_container_sizes", json!(extra.iter().map(|s| s.2.len()).collect::<Vec<_>>()));
+        seed_inputs.extend(extra.into_iter().enumerate().filter(|(i, _)| picks.contains(i)).map(|(_, s)| s));
+    }
+    seed_inputs.sort_by_key(|s| (s.2.len(), s.0.clone()));
+    if seed_inputs.len() < 3 && rep.violations.is_empty() {
+        return machinery("fewer than 3 seed containers");
+    }
+    let idx: Vec<usize> = (0..seed_inputs.len()).collect();
+    let built = par_map(&idx, ctx.threads, big_stack, None, |_, &i| {
+        let (name, prog, bytes) = &seed_inputs[i];
+        let lay = walk(bytes)?;
+        if bytes.len() >= 24 && rd32(bytes, 8) & 1 != 0 && crc32(&bytes[rd32(bytes, 16) as usize..]) != rd32(bytes, 20) {
+            return Err(format!("own CRC32 disagrees with the checksum of seed {name}"));
+        }
+        let set = mutants(bytes, &lay, i < 2);
+        Ok(Seed { name: name.clone(), prog: prog.clone(), bytes: bytes.clone(), lay, set })
+    });
+    // A seed whose layout cannot be walked means encoder and format specification disagree. With
+    // round-trip violations already on record that is a consequence of the defect (the seed is
+    // dropped and the verdict stands); on an otherwise clean run it is a machinery error.
+    let mut seeds: Vec<Seed> = Vec::new();
+    let mut seeds_dropped = 0u64;
+    for b in built {
+        match b {
+            Some(Ok(s)) => seeds.push(s),
+            Some(Err(e)) => {
+                if rep.violations.is_empty() {
+                    return machinery(e);
+                }
+                seeds_dropped += 1;
+            }
+            None => return machinery("seed not built"),
+        }
+    }
+    rep.set("seeds_dropped_unwalkable", seeds_dropped);
+    if seeds.is_empty() {
+        if rep.violations.is_empty() {
+            return machinery("no seed container");
+        }
+        rep.cap("mutation part skipped: no usable seed container because of the round-trip violations");
+        rep.set("evaluations", evaluations);
+        rep.set("distinct_nontrivial", distinct_containers.len() as u64);
+        rep.set("rule", "round trip only (see caps_hit)");
+        rep.set("exhaustive", false);
+        return Ok(rep);
+    }
+    let mut fam_counts: BTreeMap<&str, u64> = BTreeMap::new();
+    let mut seed_secs: BTreeSet<u16> = BTreeSet::new();
+    let mut seed_fields: BTreeSet<(&str, &str)> = BTreeSet::new();
+    let mut total_muts = 0u64;
+    let mut dup = 0u64;
+    for s in &seeds {
+        for (f, n) in &s.set.per_family {
+            *fam_counts.entry(f).or_insert(0) += n;
+        }
+        total_muts += s.set.muts.len() as u64;
+        dup += s.set.duplicates_dropped;
+        seed_secs.extend(s.lay.secs.iter().map(|x| x.id));
+        seed_fields.extend(s.lay.flds.iter().map(|f| (f.sec, f.name)));
+    }
+    for id in 1u16..=12 {
+        if !seed_secs.contains(&id) {
+            if rep.violations.is_empty() {
+                return machinery(format!("no seed container has section {}", section_name(id)));
+            }
+            rep.cap(format!("no seed container has section {} (seeds lost to round-trip violations)", section_name(id)));
+        }
+    }
+    eprintln!("[C11] {} seeds, {} mutants generated at {:.1}s", seeds.len(), total_muts, ctx.elapsed());
+    rep.set("seeds", seeds.len() as u64);
+    rep.set("seed_names", json!(seeds.iter().map(|s| format!("{}:{}B", s.name, s.bytes.len())).collect::<Vec<_>>()));
+    rep.set("v10_seeds_skipped", v10_skipped);
+    rep.set("mutants", total_muts);
+    rep.set("mutants_by_family", json!(fam_counts));
+    rep.set("mutant_duplicates_dropped", dup);
+    rep.set("distinct_layout_fields_in_seeds", seed_fields.len() as u64);
+
+    // ---------------- mutation rounds ----------------
+    let work = ctx.work_dir();
+    for (i, s) in seeds.iter().enumerate() {
+        std::fs::write(work.join(format!("seed{i}.bin")), &s.bytes).map_err(|e| Machinery(format!("work dir: {e}")))?;
+        std::fs::write(work.join(format!("seed{i}.json")), s.prog.to_json().to_string()).map_err(|e| Machinery(format!("work dir: {e}")))?;
+    }
+    let batch = 200usize;
+    let mut queue: Vec<Item> = Vec::new();
+    for (i, s) in seeds.iter().enumerate() {
+        let all: Vec<u32> = (0..s.set.muts.len() as u32).collect();
+        for ch in all.chunks(batch) {
+            queue.push(Item { seed: i, idxs: ch.to_vec() });
+        }
+    }
+    let mut hist: BTreeMap<String, u64> = BTreeMap::new();
+    let mut fails: Vec<(usize, u32, Fail)> = Vec::new();
+    let (mut nontrivial, mut validated, mut executed, mut deaths, mut shared_div, mut retried, mut forks) = (0u64, 0u64, 0u64, 0u64, 0u64, 0u64, 0u64);
+    let mut not_executed = 0u64;
+    let mut attempt = 0;
+    while !queue.is_empty() {
+        attempt += 1;
+        let cases: Vec<Value> = queue
+            .iter()
+            .map(|it| {
+                let s = &seeds[it.seed];
+                let muts: Vec<String> = it.idxs.iter().map(|&k| s.set.text(&s.set.muts[k as usize])).collect();
+                json!({"mode": "batch",
+                       "seed_file": work.join(format!("seed{}.bin", it.seed)).display().to_string(),
+                       "prog_file": work.join(format!("seed{}.json", it.seed)).display().to_string(),
+                       "muts": muts.join(" "), "limit_ms": 60_000})
+            })
+            .collect();
+        let cfg = pool_cfg(ctx.threads, Duration::from_secs(1200), Some(deadline));
+        let outs = iso::run_pool(&cfg, &cases).map_err(Machinery)?;
+        let mut next: Vec<Item> = Vec::new();
+        for (it, o) in queue.iter().zip(outs) {
+            match o {
+                None => not_executed += it.idxs.len() as u64,
+                Some(iso::Outcome::Ok(v)) => {
+                    if let Some(m) = v["machinery"].as_str() {
+                        return machinery(format!("worker: {m}"));
+                    }
+                    if v["done"].as_u64().unwrap_or(0) != it.idxs.len() as u64 {
+                        return machinery("worker answered for fewer mutants than it was given");
+                    }
+                    executed += it.idxs.len() as u64;
+                    nontrivial += v["nontrivial"].as_u64().unwrap_or(0);
+                    validated += v["validated"].as_u64().unwrap_or(0);
+                    shared_div += v["shared_divergence"].as_u64().unwrap_or(0);
+                    retried += v["retried"].as_u64().unwrap_or(0);
+                    forks += v["forks"].as_u64().unwrap_or(0);
+                    if let Some(h) = v["hist"].as_object() {
+                        for (k, n) in h {
+                            *hist.entry(k.clone()).or_insert(0) += n.as_u64().unwrap_or(0);
+                        }
+                    }
+                    let (per, dd) = parse_reply(&v);
+                    for (k, p) in per {
+                        if let Some(&mi) = it.idxs.get(k) {
+                            fails.push((it.seed, mi, Fail::Panic(p)));
+                        }
+                    }
+                    for (k, (stage, kind, msg)) in dd {
+                        if stage == 5 {
+                            return machinery(format!("child died while building the seed runtime: {msg}"));
+                        }
+                        deaths += 1;
+                        if let Some(&mi) = it.idxs.get(k) {
+                            fails.push((it.seed, mi, Fail::Death(if kind == "timeout" { "timeout".into() } else { msg }, stage)));
+                        }
+                    }
+                }
+                Some(other) => {
+                    // the fork server itself died / hung: machinery, retried once
+                    if attempt >= 2 {
+                        return machinery(format!("worker (fork server) failed twice: {other:?}"));
+                    }
+                    next.push(Item { seed: it.seed, idxs: it.idxs.clone() });
+                }
+            }
+        }
+        queue = next;
+    }
+    if not_executed > 0 {
+        exhaustive = false;
+        rep.cap(format!("mutation: wall cap reached, {not_executed} mutants not executed"));
+    }
+    eprintln!("[C11] mutation done at {:.1}s: {} executed, {} forks, {} deaths, {} retried", ctx.elapsed(), executed, forks, deaths, retried);
+    if shared_div > 0 {
+        return machinery(format!("{shared_div} mutants panicked on a re-used runtime but not on a fresh one (apply is not idempotent); replay would not reproduce"));
+    }
+    // violations, simplest first (seeds ascending by size, mutants in enumeration order)
+    fails.sort_by_key(|f| (f.0, f.1));
+    for (si, mi, f) in &fails {
+        let seed = &seeds[*si];
+        let m = &seed.set.muts[*mi as usize];
+        let (case, descr, family, sec, field) = mutant_case(seed, m);
+        let size = case["bytes_hex"].as_str().map(|s| s.len() / 2).unwrap_or(0);
+        let vs = match f {
+            Fail::Panic(p) => mutant_violations(p, None, family, sec, field, &descr, &seed.name, size, &case),
+            Fail::Death(msg, stage) => mutant_violations(&[], Some((msg, *stage)), family, sec, field, &descr, &seed.name, size, &case),
+        };
+        rep.violations_from(vs);
+    }
+    if let Some(s) = seeds.get(1) {
+        if let Some(m) = s.set.muts.get(s.set.muts.len() / 2) {
+            rep.sample(json!({"family": FAMILIES[m.family as usize], "seed": s.name, "mutation": s.set.describe(m)}));
+        }
+    }
+    let mut outcome_totals: BTreeMap<String, u64> = BTreeMap::new();
+    for (k, n) in &hist {
+        let o = k.split('|').nth(1).unwrap_or("?").to_string();
+        *outcome_totals.entry(o).or_insert(0) += n;
+    }
+    if validated == 0 || outcome_totals.len() < 5 {
+        return machinery(format!("mutation family vacuous: {validated} validated mutants, {} distinct outcomes", outcome_totals.len()));
+    }
+    let mut validated_by_family: BTreeMap<String, u64> = BTreeMap::new();
+    let mut deaths_by_family: BTreeMap<String, u64> = BTreeMap::new();
+    for (k, n) in &hist {
+        let mut it = k.split('|');
+        let (f, o) = (it.next().unwrap_or("?"), it.next().unwrap_or("?"));
+        if o.starts_with("A:") {
+            *validated_by_family.entry(f.to_string()).or_insert(0) += n;
+        }
+        if o.starts_with("X:") {
+            *deaths_by_family.entry(f.to_string()).or_insert(0) += n;
+        }
+    }
+    rep.set("validated_by_family", json!(validated_by_family));
+    rep.set("deaths_by_family", json!(deaths_by_family));
+    evaluations += executed;
+    rep.set("mutants_executed", executed);
+    rep.set("mutants_reaching_section_decoders", nontrivial);
+    rep.set("mutants_validated", validated);
+    rep.set("mutant_outcomes", json!(outcome_totals));
+    rep.set("distinct_outcomes", outcome_totals.len() as u64);
+    rep.set("worker_deaths_confirmed", deaths);
+    rep.set("worker_forks", forks);
+    rep.set("deaths_retried_in_fresh_child", retried);
+    rep.set("evaluations", evaluations);
+    rep.set("distinct_nontrivial", nontrivial + distinct_containers.len() as u64);
+    rep.set(
+        "rule",
+        "round trip: every generated program, every repository .st file that compiles to bytecode on its own and every directory of .st files that compiles as a project (validate(compile(p)), decode(encode(m))==m, encode(decode(e))==e, metadata/apply without panic). mutation: for every seed container the complete set of {every byte x 7 values; every even/4-aligned offset and every 2/4/8-byte layout field x boundary values, value+-1, section length(+1), file length(+1), remaining bytes(+1); every tag byte x its domain; every truncation raw and with repaired section table; every section x every shorter length; section-table swaps/copies/retags/aliases/extensions/relocations; every type-id field x every type index, self- and 2-cycle aliases paired with a retyped constant; header boundary product on the two smallest seeds}, duplicates by resulting bytes dropped, CRC recomputed, each run decode->validate->metadata->apply->hot-reload in an RLIMIT_AS worker. distinct_nontrivial = distinct emitted containers + distinct mutants that passed framing and CRC and reached a section decoder.",
+    );
+    rep.set("exhaustive", exhaustive);
+    rep.assume("'memory proportional to the input' is approximated by RLIMIT_AS = 1 GiB for inputs below 64 KiB: only an allocation request that fails under that cap (abort) is reported; smaller over-allocations are not detected");
+    rep.assume("stack overflow is judged on an 8 MiB thread stack");
+    rep.assume("apply is exercised on the runtime compiled from the seed's own source program (fresh runtime per distinct metadata), resource_name = None as in scheduler.rs ReloadBytecode");
+    rep.assume("the subject is built with the harness profile (opt-level 1, debug assertions and overflow checks on)");
+    Ok(rep)
+}
+
+pub fn workers() -> Vec<(&'static str, iso::WorkerFn)> {
+    vec![("c11", worker as iso::WorkerFn)]
 }
